@@ -1,1735 +1,4 @@
-import ParryModel.Field
-import ParryModel.C10.Model
-import ParryModel.C10.Lemmas
-import Mathlib.Analysis.Real.Sqrt
-/-!
-# C10 property theorems: support maps return a member of the shape maximising `dir·p`.
-All statements are about the model functions of `C10/Model.lean` at the lawful instance `fieldNum K sq`
-(any linearly ordered field `K`; `sq` its square-root operation, constrained by `LawfulSqrt` where used).
-Specifications: the `Mem` predicates of `Shapes.lean` and `IsSupport*` below.
--/
-set_option linter.style.haveILetI false
-set_option linter.unusedSectionVars false
-set_option linter.unusedSimpArgs false
-set_option linter.unusedTactic false
-set_option linter.unreachableTactic false
-
-namespace C10
-open Model Model.C10
-
-variable {K : Type} [Field K] [LinearOrder K] [IsStrictOrderedRing K] (sq : K → K)
-
-/-- **The specification.** `p` is a support point of the set `S` in direction `dir`:
-`p ∈ S` and `dir·q ≤ dir·p` for every `q ∈ S`. -/
-def IsSupport3 (S : V3 K → Prop) (dir p : V3 K) : Prop :=
-  letI := fieldNum K sq
-  S p ∧ ∀ q, S q → dir.dot q ≤ dir.dot p
-def IsSupport2 (S : V2 K → Prop) (dir p : V2 K) : Prop :=
-  letI := fieldNum K sq
-  S p ∧ ∀ q, S q → dir.dot q ≤ dir.dot p
-
-/-- at an ordered field `copysign mag sgn` is `-|mag|` for `sgn < 0` and `|mag|` otherwise
-(the IEEE negative-zero clause `1/sgn < 0` is subsumed by `sgn < 0`). -/
-theorem copysign_field (mag sgn : K) :
-    letI := fieldNum K sq
-    copysign mag sgn = if sgn < 0 then -|mag| else |mag| := by
-  simp only [copysign, fieldNum_nabs]
-  have h : (sgn < 0 ∨ 1 / sgn < 0) ↔ sgn < 0 := by
-    constructor
-    · rintro (h | h)
-      · exact h
-      · exact one_div_neg.mp h
-    · exact Or.inl
-  simp only [h]
-
-private theorem cs_mem (h d : K) (hh : 0 ≤ h) :
-    -h ≤ (if d < 0 then -|h| else |h|) ∧ (if d < 0 then -|h| else |h|) ≤ h := by
-  rw [abs_of_nonneg hh]; split_ifs <;> constructor <;> linarith
-
-private theorem cs_max (h d x : K) (hh : 0 ≤ h) (hx : -h ≤ x ∧ x ≤ h) :
-    d * x ≤ d * (if d < 0 then -|h| else |h|) := by
-  rw [abs_of_nonneg hh]
-  split_ifs with c
-  · nlinarith [hx.1]
-  · push Not at c; nlinarith [hx.2]
-
-/-- **C10 (cuboid, 3-D)**: for every cuboid with non-negative half-extents and *every* direction (zero
-included), `Cuboid::local_support_point` returns a point of the cuboid that maximises `dir·p` over the
-cuboid. -/
-theorem cuboid_support3 (he dir : V3 K) (hx : 0 ≤ he.x) (hy : 0 ≤ he.y) (hz : 0 ≤ he.z) :
-    letI := fieldNum K sq
-    IsSupport3 sq (Cuboid3.mk he).Mem dir (cuboidLocal3 he dir) := by
-  simp only [IsSupport3, Cuboid3.Mem, cuboidLocal3, copysign_field, V3.dot]
-  refine ⟨⟨cs_mem _ _ hx, cs_mem _ _ hy, cs_mem _ _ hz⟩, ?_⟩
-  rintro q ⟨h1, h2, h3⟩
-  have a := cs_max he.x dir.x q.x hx h1
-  have b := cs_max he.y dir.y q.y hy h2
-  have c := cs_max he.z dir.z q.z hz h3
-  linarith
-
-example : (0:ℚ) ≤ (⟨1, 2, 3⟩ : V3 ℚ).x ∧ (0:ℚ) ≤ (⟨1, 2, 3⟩ : V3 ℚ).y ∧ (0:ℚ) ≤ (⟨1, 2, 3⟩ : V3 ℚ).z := by
-  norm_num
-
-/-- **C10 (cuboid, 2-D)**. -/
-theorem cuboid_support2 (he dir : V2 K) (hx : 0 ≤ he.x) (hy : 0 ≤ he.y) :
-    letI := fieldNum K sq
-    IsSupport2 sq (Cuboid2.mk he).Mem dir (cuboidLocal2 he dir) := by
-  simp only [IsSupport2, Cuboid2.Mem, cuboidLocal2, copysign_field, V2.dot]
-  refine ⟨⟨cs_mem _ _ hx, cs_mem _ _ hy⟩, ?_⟩
-  rintro q ⟨h1, h2⟩
-  have a := cs_max he.x dir.x q.x hx h1
-  have b := cs_max he.y dir.y q.y hy h2
-  linarith
-
-/-! ## segment, triangle: the better vertex -/
-
-section vertices
-
-private theorem seg3_mem_a (a b : V3 K) : letI := fieldNum K sq; (Segment3.mk a b).Mem a := by
-  refine ⟨0, le_refl _, zero_le_one, ?_⟩
-  simp [V3.add, V3.sub, V3.smul]
-private theorem seg3_mem_b (a b : V3 K) : letI := fieldNum K sq; (Segment3.mk a b).Mem b := by
-  refine ⟨1, zero_le_one, le_refl _, ?_⟩
-  simp [V3.add, V3.sub, V3.smul]
-private theorem seg3_max (a b dir q : V3 K) (M : K) :
-    letI := fieldNum K sq
-    (Segment3.mk a b).Mem q → dir.dot a ≤ M → dir.dot b ≤ M → dir.dot q ≤ M := by
-  rintro ⟨t, h0, h1, rfl⟩ ha hb
-  simp only [V3.dot, V3.add, V3.sub, V3.smul] at *
-  nlinarith [mul_nonneg h0 (sub_nonneg.2 hb), mul_nonneg (sub_nonneg.2 h1) (sub_nonneg.2 ha)]
-private theorem seg2_mem_a (a b : V2 K) : letI := fieldNum K sq; (Segment2.mk a b).Mem a := by
-  refine ⟨0, le_refl _, zero_le_one, ?_⟩
-  simp [V2.add, V2.sub, V2.smul]
-private theorem seg2_mem_b (a b : V2 K) : letI := fieldNum K sq; (Segment2.mk a b).Mem b := by
-  refine ⟨1, zero_le_one, le_refl _, ?_⟩
-  simp [V2.add, V2.sub, V2.smul]
-private theorem seg2_max (a b dir q : V2 K) (M : K) :
-    letI := fieldNum K sq
-    (Segment2.mk a b).Mem q → dir.dot a ≤ M → dir.dot b ≤ M → dir.dot q ≤ M := by
-  rintro ⟨t, h0, h1, rfl⟩ ha hb
-  simp only [V2.dot, V2.add, V2.sub, V2.smul] at *
-  nlinarith [mul_nonneg h0 (sub_nonneg.2 hb), mul_nonneg (sub_nonneg.2 h1) (sub_nonneg.2 ha)]
-end vertices
-
-private theorem dot_comm3 (a b : V3 K) : letI := fieldNum K sq; a.dot b = b.dot a := by
-  simp only [V3.dot]; ring
-private theorem dot_comm2 (a b : V2 K) : letI := fieldNum K sq; a.dot b = b.dot a := by
-  simp only [V2.dot]; ring
-
-/-- **C10 (segment, 3-D)**: for every segment and every direction, `Segment::local_support_point` returns a
-point of the segment maximising `dir·p` over the whole segment (not only over its two end points). -/
-theorem segment_support3 (a b dir : V3 K) :
-    letI := fieldNum K sq
-    IsSupport3 sq (Segment3.mk a b).Mem dir (segmentLocal3 a b dir) := by
-  unfold IsSupport3 segmentLocal3
-  by_cases c : (@V3.dot K (fieldNum K sq) b dir) < (@V3.dot K (fieldNum K sq) a dir)
-  · rw [if_pos c]
-    rw [dot_comm3 sq b, dot_comm3 sq a] at c
-    exact ⟨seg3_mem_a sq a b, fun q hq => seg3_max sq a b dir q _ hq (le_refl _) c.le⟩
-  · rw [if_neg c]
-    rw [dot_comm3 sq b, dot_comm3 sq a] at c
-    exact ⟨seg3_mem_b sq a b, fun q hq => seg3_max sq a b dir q _ hq (not_lt.1 c) (le_refl _)⟩
-
-/-- **C10 (segment, 2-D)**. -/
-theorem segment_support2 (a b dir : V2 K) :
-    letI := fieldNum K sq
-    IsSupport2 sq (Segment2.mk a b).Mem dir (segmentLocal2 a b dir) := by
-  unfold IsSupport2 segmentLocal2
-  by_cases c : (@V2.dot K (fieldNum K sq) b dir) < (@V2.dot K (fieldNum K sq) a dir)
-  · rw [if_pos c]
-    rw [dot_comm2 sq b, dot_comm2 sq a] at c
-    exact ⟨seg2_mem_a sq a b, fun q hq => seg2_max sq a b dir q _ hq (le_refl _) c.le⟩
-  · rw [if_neg c]
-    rw [dot_comm2 sq b, dot_comm2 sq a] at c
-    exact ⟨seg2_mem_b sq a b, fun q hq => seg2_max sq a b dir q _ hq (not_lt.1 c) (le_refl _)⟩
-
-private theorem tri3_mem (a b c : V3 K) :
-    letI := fieldNum K sq
-    (Triangle3.mk a b c).Mem a ∧ (Triangle3.mk a b c).Mem b ∧ (Triangle3.mk a b c).Mem c := by
-  refine ⟨⟨0, 0, ?_⟩, ⟨1, 0, ?_⟩, ⟨0, 1, ?_⟩⟩ <;> simp [V3.add, V3.sub, V3.smul]
-private theorem tri3_max (a b c dir q : V3 K) (M : K) :
-    letI := fieldNum K sq
-    (Triangle3.mk a b c).Mem q → dir.dot a ≤ M → dir.dot b ≤ M → dir.dot c ≤ M → dir.dot q ≤ M := by
-  rintro ⟨u, v, h0, h1, h2, rfl⟩ ha hb hc
-  simp only [V3.dot, V3.add, V3.sub, V3.smul] at *
-  nlinarith [mul_nonneg h0 (sub_nonneg.2 hb), mul_nonneg h1 (sub_nonneg.2 hc), mul_nonneg (sub_nonneg.2 h2) (sub_nonneg.2 ha)]
-private theorem tri2_mem (a b c : V2 K) :
-    letI := fieldNum K sq
-    (Triangle2.mk a b c).Mem a ∧ (Triangle2.mk a b c).Mem b ∧ (Triangle2.mk a b c).Mem c := by
-  refine ⟨⟨0, 0, ?_⟩, ⟨1, 0, ?_⟩, ⟨0, 1, ?_⟩⟩ <;> simp [V2.add, V2.sub, V2.smul]
-private theorem tri2_max (a b c dir q : V2 K) (M : K) :
-    letI := fieldNum K sq
-    (Triangle2.mk a b c).Mem q → dir.dot a ≤ M → dir.dot b ≤ M → dir.dot c ≤ M → dir.dot q ≤ M := by
-  rintro ⟨u, v, h0, h1, h2, rfl⟩ ha hb hc
-  simp only [V2.dot, V2.add, V2.sub, V2.smul] at *
-  nlinarith [mul_nonneg h0 (sub_nonneg.2 hb), mul_nonneg h1 (sub_nonneg.2 hc), mul_nonneg (sub_nonneg.2 h2) (sub_nonneg.2 ha)]
-
-/-- **C10 (triangle, 3-D)**: `Triangle::local_support_point` returns a point of the (filled) triangle that
-maximises `dir·p` over the whole triangle, for every triangle (degenerate ones included) and direction. -/
-theorem triangle_support3 (a b c dir : V3 K) :
-    letI := fieldNum K sq
-    IsSupport3 sq (Triangle3.mk a b c).Mem dir (triangleLocal3 a b c dir) := by
-  obtain ⟨ma, mb, mc⟩ := tri3_mem sq a b c
-  unfold IsSupport3 triangleLocal3
-  simp only [dot_comm3 sq _ dir]
-  split_ifs with c1 c2 c3
-  · exact ⟨ma, fun q hq => tri3_max sq a b c dir q _ hq (le_refl _) c1.le c2.le⟩
-  · exact ⟨mc, fun q hq => tri3_max sq a b c dir q _ hq (not_lt.1 c2) (c1.le.trans (not_lt.1 c2)) (le_refl _)⟩
-  · exact ⟨mb, fun q hq => tri3_max sq a b c dir q _ hq (not_lt.1 c1) (le_refl _) c3.le⟩
-  · exact ⟨mc, fun q hq => tri3_max sq a b c dir q _ hq ((not_lt.1 c1).trans (not_lt.1 c3)) (not_lt.1 c3) (le_refl _)⟩
-
-/-- **C10 (triangle, 2-D)**. -/
-theorem triangle_support2 (a b c dir : V2 K) :
-    letI := fieldNum K sq
-    IsSupport2 sq (Triangle2.mk a b c).Mem dir (triangleLocal2 a b c dir) := by
-  obtain ⟨ma, mb, mc⟩ := tri2_mem sq a b c
-  unfold IsSupport2 triangleLocal2
-  simp only [dot_comm2 sq _ dir]
-  split_ifs with c1 c2 c3
-  · exact ⟨ma, fun q hq => tri2_max sq a b c dir q _ hq (le_refl _) c1.le c2.le⟩
-  · exact ⟨mc, fun q hq => tri2_max sq a b c dir q _ hq (not_lt.1 c2) (c1.le.trans (not_lt.1 c2)) (le_refl _)⟩
-  · exact ⟨mb, fun q hq => tri2_max sq a b c dir q _ hq (not_lt.1 c1) (le_refl _) c3.le⟩
-  · exact ⟨mc, fun q hq => tri2_max sq a b c dir q _ hq ((not_lt.1 c1).trans (not_lt.1 c3)) (not_lt.1 c3) (le_refl _)⟩
-
-/-! ## ball: normalise, then scale -/
-
-/-- `dir · (dir/|dir| · r) = |dir| r` and `|dir/|dir| · r|² = r²` (3-D), for `n = |dir| > 0`. -/
-private theorem unit_scale3 (x y z n r : K) (hn : 0 < n) (hnn : n * n = x*x + y*y + z*z) :
-    x * (x / n * r) + y * (y / n * r) + z * (z / n * r) = n * r ∧
-    (x / n * r) * (x / n * r) + (y / n * r) * (y / n * r) + (z / n * r) * (z / n * r) = r * r := by
-  have hne : n ≠ 0 := ne_of_gt hn
-  constructor
-  · field_simp; linear_combination (-r) * hnn
-  · field_simp; linear_combination (-(r^2)) * hnn
-private theorem unit_scale2 (x y n r : K) (hn : 0 < n) (hnn : n * n = x*x + y*y) :
-    x * (x / n * r) + y * (y / n * r) = n * r ∧
-    (x / n * r) * (x / n * r) + (y / n * r) * (y / n * r) = r * r := by
-  have hne : n ≠ 0 := ne_of_gt hn
-  constructor
-  · field_simp; linear_combination (-r) * hnn
-  · field_simp; linear_combination (-(r^2)) * hnn
-
-/-- **C10 (ball, 3-D)**: for every radius `r ≥ 0` and every non-zero direction, `Ball::local_support_point`
-(= `dir/|dir| · r`) is a point of the ball that maximises `dir·p` over the ball. -/
-theorem ball_support3 (hs : LawfulSqrt sq) (r : K) (dir : V3 K) (hr : 0 ≤ r)
-    (hd : dir.x ≠ 0 ∨ dir.y ≠ 0 ∨ dir.z ≠ 0) :
-    letI := fieldNum K sq
-    IsSupport3 sq (Ball.mk r).Mem3 dir (ballLocal3 r dir) := by
-  have hpos := sumsq3_pos hd
-  have hn := norm_pos_of hs hpos
-  have hnn := hs.sq_mul _ hpos.le
-  obtain ⟨e1, e2⟩ := unit_scale3 dir.x dir.y dir.z _ r hn hnn
-  simp only [IsSupport3, Ball.Mem3, ballLocal3, ballToward3, normalize3, V3.sdiv, V3.smul, V3.norm, V3.normSq, V3.dot]
-  refine ⟨le_of_eq e2, fun q hq => ?_⟩
-  exact (dot_le3 _ _ _ _ _ _ _ _ hn.le hr hnn hq).trans (le_of_eq e1.symm)
-
-/-- non-vacuity of the `LawfulSqrt` hypothesis used throughout: the real square root is lawful. -/
-theorem lawfulSqrt_real : LawfulSqrt Real.sqrt :=
-  ⟨fun x _ => Real.sqrt_nonneg x, fun _ hx => Real.mul_self_sqrt hx⟩
-
-example : (0:ℝ) ≤ 2 ∧ ((⟨3, 0, -4⟩ : V3 ℝ).x ≠ 0 ∨ (⟨3, 0, -4⟩ : V3 ℝ).y ≠ 0 ∨ (⟨3, 0, -4⟩ : V3 ℝ).z ≠ 0) := by
-  norm_num
-
-/-- **C10 (ball, 2-D)**. -/
-theorem ball_support2 (hs : LawfulSqrt sq) (r : K) (dir : V2 K) (hr : 0 ≤ r)
-    (hd : dir.x ≠ 0 ∨ dir.y ≠ 0) :
-    letI := fieldNum K sq
-    IsSupport2 sq (Ball.mk r).Mem2 dir (ballLocal2 r dir) := by
-  have hpos := sumsq2_pos hd
-  have hn := norm_pos_of hs hpos
-  have hnn := hs.sq_mul _ hpos.le
-  obtain ⟨e1, e2⟩ := unit_scale2 dir.x dir.y _ r hn hnn
-  simp only [IsSupport2, Ball.Mem2, ballLocal2, ballToward2, normalize2, V2.sdiv, V2.smul, V2.norm, V2.normSq, V2.dot]
-  refine ⟨le_of_eq e2, fun q hq => ?_⟩
-  exact (dot_le2 _ _ _ _ _ _ hn.le hr hnn hq).trans (le_of_eq e1.symm)
-
-/-! ## capsule: better end point + `dir/|dir| · r` -/
-
-/-- **C10 (capsule, 3-D)**: for every capsule (`r ≥ 0`, any end points, coincident ones included) and every
-non-zero direction, `Capsule::local_support_point` is a point of the capsule (within `r` of the segment) and
-maximises `dir·p` over the capsule. -/
-theorem capsule_support3 (hs : LawfulSqrt sq) (a b : V3 K) (r : K) (dir : V3 K) (hr : 0 ≤ r)
-    (hd : dir.x ≠ 0 ∨ dir.y ≠ 0 ∨ dir.z ≠ 0) :
-    letI := fieldNum K sq
-    IsSupport3 sq (Capsule3.mk a b r).Mem dir (capsuleLocal3 a b r dir) := by
-  have hpos := sumsq3_pos hd
-  have hn := norm_pos_of hs hpos
-  have hnn := hs.sq_mul _ hpos.le
-  obtain ⟨e1, e2⟩ := unit_scale3 dir.x dir.y dir.z _ r hn hnn
-  have hne : sq (dir.x * dir.x + dir.y * dir.y + dir.z * dir.z) ≠ 0 := ne_of_gt hn
-  -- `try_new` succeeds on a non-zero direction
-  have htn : @tryNew3 K (fieldNum K sq) dir 0 = some (@V3.sdiv K (fieldNum K sq) dir (sq (dir.x * dir.x + dir.y * dir.y + dir.z * dir.z))) := by
-    simp only [tryNew3]
-    split_ifs with h
-    · rfl
-    · exact absurd (by simpa [V3.normSq, V3.dot] using hpos) h
-  unfold IsSupport3 capsuleLocal3
-  rw [htn]
-  simp only [Option.getD_some, capsuleToward3]
-  -- which end point is chosen agrees with comparing `dir·a` and `dir·b`
-  letI : Num K := fieldNum K sq
-  set n := sq (dir.x * dir.x + dir.y * dir.y + dir.z * dir.z) with hndef
-  have hcmp : ∀ p : V3 K, @V3.dot K (fieldNum K sq) (@V3.sdiv K (fieldNum K sq) dir n) p
-      = (@V3.dot K (fieldNum K sq) dir p) / n := by
-    intro p; simp only [V3.dot, V3.sdiv]; field_simp
-  have mem_of : ∀ e : V3 K, (Segment3.mk a b).Mem e →
-      (Capsule3.mk a b r).Mem (@V3.add K (fieldNum K sq) e (@V3.smul K (fieldNum K sq) (@V3.sdiv K (fieldNum K sq) dir n) r)) := by
-    intro e he
-    refine ⟨e, he, ?_⟩
-    simp only [V3.normSq, V3.dot, V3.sub, V3.add, V3.smul, V3.sdiv]
-    have : ∀ u v : K, u + v - u = v := fun u v => by ring
-    rw [this, this, this]
-    exact le_of_eq e2
-  have max_of : ∀ e : V3 K, @V3.dot K (fieldNum K sq) dir a ≤ @V3.dot K (fieldNum K sq) dir e →
-      @V3.dot K (fieldNum K sq) dir b ≤ @V3.dot K (fieldNum K sq) dir e →
-      ∀ q, (Capsule3.mk a b r).Mem q → @V3.dot K (fieldNum K sq) dir q ≤
-        @V3.dot K (fieldNum K sq) dir (@V3.add K (fieldNum K sq) e (@V3.smul K (fieldNum K sq) (@V3.sdiv K (fieldNum K sq) dir n) r)) := by
-    intro e hea heb q ⟨c, hc, hq⟩
-    have h1 := seg3_max sq a b dir c _ hc hea heb
-    have h2 := dot_le3 dir.x dir.y dir.z (q.x - c.x) (q.y - c.y) (q.z - c.z) n r hn.le hr hnn
-      (by simpa only [V3.normSq, V3.dot, V3.sub] using hq)
-    simp only [V3.dot, V3.add, V3.smul, V3.sdiv] at h1 ⊢
-    nlinarith [e1]
-  split_ifs with c
-  · rw [hcmp, hcmp, div_lt_div_iff_of_pos_right hn] at c
-    exact ⟨mem_of a (seg3_mem_a sq a b), max_of a (le_refl _) c.le⟩
-  · rw [hcmp, hcmp, div_lt_div_iff_of_pos_right hn] at c
-    exact ⟨mem_of b (seg3_mem_b sq a b), max_of b (not_lt.1 c) (le_refl _)⟩
-
-/-- **C10 (capsule, 2-D)**. -/
-theorem capsule_support2 (hs : LawfulSqrt sq) (a b : V2 K) (r : K) (dir : V2 K) (hr : 0 ≤ r)
-    (hd : dir.x ≠ 0 ∨ dir.y ≠ 0) :
-    letI := fieldNum K sq
-    IsSupport2 sq (Capsule2.mk a b r).Mem dir (capsuleLocal2 a b r dir) := by
-  have hpos := sumsq2_pos hd
-  have hn := norm_pos_of hs hpos
-  have hnn := hs.sq_mul _ hpos.le
-  obtain ⟨e1, e2⟩ := unit_scale2 dir.x dir.y _ r hn hnn
-  have hne : sq (dir.x * dir.x + dir.y * dir.y) ≠ 0 := ne_of_gt hn
-  -- `try_new` succeeds on a non-zero direction
-  have htn : @tryNew2 K (fieldNum K sq) dir 0 = some (@V2.sdiv K (fieldNum K sq) dir (sq (dir.x * dir.x + dir.y * dir.y))) := by
-    simp only [tryNew2]
-    split_ifs with h
-    · rfl
-    · exact absurd (by simpa [V2.normSq, V2.dot] using hpos) h
-  unfold IsSupport2 capsuleLocal2
-  rw [htn]
-  simp only [Option.getD_some, capsuleToward2]
-  -- which end point is chosen agrees with comparing `dir·a` and `dir·b`
-  letI : Num K := fieldNum K sq
-  set n := sq (dir.x * dir.x + dir.y * dir.y) with hndef
-  have hcmp : ∀ p : V2 K, @V2.dot K (fieldNum K sq) (@V2.sdiv K (fieldNum K sq) dir n) p
-      = (@V2.dot K (fieldNum K sq) dir p) / n := by
-    intro p; simp only [V2.dot, V2.sdiv]; field_simp
-  have mem_of : ∀ e : V2 K, (Segment2.mk a b).Mem e →
-      (Capsule2.mk a b r).Mem (@V2.add K (fieldNum K sq) e (@V2.smul K (fieldNum K sq) (@V2.sdiv K (fieldNum K sq) dir n) r)) := by
-    intro e he
-    refine ⟨e, he, ?_⟩
-    simp only [V2.normSq, V2.dot, V2.sub, V2.add, V2.smul, V2.sdiv]
-    have : ∀ u v : K, u + v - u = v := fun u v => by ring
-    rw [this, this]
-    exact le_of_eq e2
-  have max_of : ∀ e : V2 K, @V2.dot K (fieldNum K sq) dir a ≤ @V2.dot K (fieldNum K sq) dir e →
-      @V2.dot K (fieldNum K sq) dir b ≤ @V2.dot K (fieldNum K sq) dir e →
-      ∀ q, (Capsule2.mk a b r).Mem q → @V2.dot K (fieldNum K sq) dir q ≤
-        @V2.dot K (fieldNum K sq) dir (@V2.add K (fieldNum K sq) e (@V2.smul K (fieldNum K sq) (@V2.sdiv K (fieldNum K sq) dir n) r)) := by
-    intro e hea heb q ⟨c, hc, hq⟩
-    have h1 := seg2_max sq a b dir c _ hc hea heb
-    have h2 := dot_le2 dir.x dir.y (q.x - c.x) (q.y - c.y) n r hn.le hr hnn
-      (by simpa only [V2.normSq, V2.dot, V2.sub] using hq)
-    simp only [V2.dot, V2.add, V2.smul, V2.sdiv] at h1 ⊢
-    nlinarith [e1]
-  split_ifs with c
-  · rw [hcmp, hcmp, div_lt_div_iff_of_pos_right hn] at c
-    exact ⟨mem_of a (seg2_mem_a sq a b), max_of a (le_refl _) c.le⟩
-  · rw [hcmp, hcmp, div_lt_div_iff_of_pos_right hn] at c
-    exact ⟨mem_of b (seg2_mem_b sq a b), max_of b (not_lt.1 c) (le_refl _)⟩
-
-/-! ## cylinder and cone (3-D only) -/
-
-private theorem csf_mem (h d : K) (hh : 0 ≤ h) :
-    letI := fieldNum K sq
-    (-h ≤ copysign h d) ∧ copysign h d ≤ h := by
-  rw [copysign_field]; exact cs_mem h d hh
-private theorem csf_max (h d x : K) (hh : 0 ≤ h) (hx : -h ≤ x ∧ x ≤ h) :
-    letI := fieldNum K sq
-    d * x ≤ d * copysign h d := by
-  rw [copysign_field]; exact cs_max h d x hh hx
-
-private theorem neq_field (a b : K) : letI := fieldNum K sq; (neq a b = true) ↔ a = b := by
-  unfold neq
-  rw [Bool.and_eq_true, decide_eq_true_iff, decide_eq_true_iff]
-  exact le_antisymm_iff.symm
-
-private theorem fieldNum_sqrt (x : K) : @Num.sqrt K (fieldNum K sq) x = sq x := rfl
-
-/-- facts about `n = √(x² + 0² + z²)`, the norm computed by `normalize_mut` after `vres[1] = 0` -/
-private theorem xz_norm (hs : LawfulSqrt sq) (x z : K) :
-    0 ≤ sq (x * x + 0 * 0 + z * z) ∧ sq (x * x + 0 * 0 + z * z) * sq (x * x + 0 * 0 + z * z) = x * x + z * z := by
-  have h0 : 0 ≤ x * x + 0 * 0 + z * z := by nlinarith [mul_self_nonneg x, mul_self_nonneg z]
-  refine ⟨hs.nonneg _ h0, ?_⟩
-  rw [hs.sq_mul _ h0]; ring
-
-private theorem xz_zero {x z n : K} (hnn : n * n = x * x + z * z) (h : n = 0) : x = 0 ∧ z = 0 := by
-  subst h
-  have hx := mul_self_nonneg x; have hz := mul_self_nonneg z
-  constructor
-  · exact mul_self_eq_zero.1 (by nlinarith)
-  · exact mul_self_eq_zero.1 (by nlinarith)
-
-/-- **C10 (cylinder)**: for every cylinder (`half_height ≥ 0`, `radius ≥ 0`) and *every* direction,
-`Cylinder::local_support_point` is a point of the cylinder maximising `dir·p` over the cylinder. -/
-theorem cylinder_support (hs : LawfulSqrt sq) (hh r : K) (dir : V3 K) (hh0 : 0 ≤ hh) (hr : 0 ≤ r) :
-    letI := fieldNum K sq
-    IsSupport3 sq (Cylinder.mk hh r).Mem dir (cylinderLocal hh r dir) := by
-  obtain ⟨hn0, hnn⟩ := xz_norm sq hs dir.x dir.z
-  have hcm := csf_mem sq hh dir.y hh0
-  have hnorm : @V3.norm K (fieldNum K sq) ⟨dir.x, 0, dir.z⟩ = sq (dir.x * dir.x + 0 * 0 + dir.z * dir.z) := rfl
-  rcases Bool.eq_false_or_eq_true (@neq K (fieldNum K sq) (@V3.norm K (fieldNum K sq) ⟨dir.x, 0, dir.z⟩) 0) with hb | hb
-  · rw [hnorm] at hb
-    have h0 := (neq_field sq _ _).1 hb
-    obtain ⟨hx, hz⟩ := xz_zero hnn h0
-    simp only [IsSupport3, Cylinder.Mem, cylinderLocal, hnorm, hb, if_true, V3.zero, V3.dot]
-    refine ⟨⟨hcm, by nlinarith [mul_self_nonneg r]⟩, ?_⟩
-    rintro q ⟨hy, _⟩
-    have := csf_max sq hh dir.y q.y hh0 hy
-    rw [hx, hz]; linarith
-  · rw [hnorm] at hb
-    have h0 : sq (dir.x * dir.x + 0 * 0 + dir.z * dir.z) ≠ 0 := by
-      intro h; rw [(neq_field sq _ _).2 h] at hb; exact Bool.noConfusion hb
-    have hn := lt_of_le_of_ne hn0 (Ne.symm h0)
-    obtain ⟨e1, e2⟩ := unit_scale2 dir.x dir.z _ r hn hnn
-    simp only [IsSupport3, Cylinder.Mem, cylinderLocal, hnorm, hb, Bool.false_eq_true, if_false, V3.dot, V3.sdiv, V3.smul]
-    refine ⟨⟨hcm, le_of_eq e2⟩, ?_⟩
-    rintro q ⟨hy, hq⟩
-    have h1 := csf_max sq hh dir.y q.y hh0 hy
-    have h2 := dot_le2 dir.x dir.z q.x q.z _ r hn.le hr hnn hq
-    calc dir.x * q.x + dir.y * q.y + dir.z * q.z = (dir.x * q.x + dir.z * q.z) + dir.y * q.y := by ring
-      _ ≤ _ := add_le_add h2 h1
-      _ = _ := by rw [← e1]; ring
-
-example : (0:ℝ) ≤ 2 ∧ (0:ℝ) ≤ 1/2 := by norm_num
-
-/-- the heart of the cone case: a linear functional on the cone `{ρ·2hh ≤ r·(hh-y), |y| ≤ hh}` is bounded by
-the larger of its values at the apex (`A = dy·hh`) and on the base rim (`B = n·r - dy·hh`). -/
-private theorem cone_bound (hh r n dx dy dz qx qy qz : K) (hh0 : 0 < hh) (hr : 0 ≤ r) (hn : 0 ≤ n)
-    (hnn : n * n = dx * dx + dz * dz) (hy : -hh ≤ qy ∧ qy ≤ hh)
-    (hq : (qx * qx + qz * qz) * ((2 * hh) * (2 * hh)) ≤ (r * r) * ((hh - qy) * (hh - qy))) :
-    dx * qx + dy * qy + dz * qz ≤ max (dy * hh) (n * r - dy * hh) := by
-  have hs : 0 ≤ hh - qy := by linarith [hy.2]
-  -- L·2hh ≤ n·r·(hh - qy)
-  have hL : (dx * qx + dz * qz) * (2 * hh) ≤ n * r * (hh - qy) := by
-    apply le_of_mul_self_le (mul_nonneg (mul_nonneg hn hr) hs)
-    have c := cs2 dx dz qx qz
-    have h4 : 0 ≤ (2 * hh) * (2 * hh) := mul_self_nonneg _
-    calc (dx * qx + dz * qz) * (2 * hh) * ((dx * qx + dz * qz) * (2 * hh))
-        = ((dx * qx + dz * qz) * (dx * qx + dz * qz)) * ((2 * hh) * (2 * hh)) := by ring
-      _ ≤ ((dx * dx + dz * dz) * (qx * qx + qz * qz)) * ((2 * hh) * (2 * hh)) :=
-          mul_le_mul_of_nonneg_right c h4
-      _ = (n * n) * ((qx * qx + qz * qz) * ((2 * hh) * (2 * hh))) := by rw [hnn]; ring
-      _ ≤ (n * n) * ((r * r) * ((hh - qy) * (hh - qy))) :=
-          mul_le_mul_of_nonneg_left hq (mul_self_nonneg n)
-      _ = n * r * (hh - qy) * (n * r * (hh - qy)) := by ring
-  -- 2hh·(d·q) ≤ 2hh·A + s·(B - A),  s = hh - qy ∈ [0, 2hh]
-  have h2 : 0 < 2 * hh := by linarith
-  rcases le_total (n * r - dy * hh) (dy * hh) with hAB | hAB
-  · rw [max_eq_left hAB]
-    have : (dx * qx + dy * qy + dz * qz) * (2 * hh) ≤ (dy * hh) * (2 * hh) := by
-      nlinarith [mul_nonneg hs (sub_nonneg.2 hAB)]
-    exact le_of_mul_le_mul_right this h2
-  · rw [max_eq_right hAB]
-    have hs2 : 0 ≤ 2 * hh - (hh - qy) := by linarith [hy.1]
-    have : (dx * qx + dy * qy + dz * qz) * (2 * hh) ≤ (n * r - dy * hh) * (2 * hh) := by
-      nlinarith [mul_nonneg hs2 (sub_nonneg.2 hAB)]
-    exact le_of_mul_le_mul_right this h2
-
-/-- **C10 (cone)**: for every cone (`half_height > 0`, `radius ≥ 0`; apex at `+half_height`) and *every*
-direction, `Cone::local_support_point` is a point of the cone maximising `dir·p` over the cone: the
-two-candidate comparison apex / base rim in the code is exhaustive. -/
-theorem cone_support (hs : LawfulSqrt sq) (hh r : K) (dir : V3 K) (hh0 : 0 < hh) (hr : 0 ≤ r) :
-    letI := fieldNum K sq
-    IsSupport3 sq (Cone.mk hh r).Mem dir (coneLocal hh r dir) := by
-  obtain ⟨hn0, hnn⟩ := xz_norm sq hs dir.x dir.z
-  have hcm := csf_mem sq hh dir.y hh0.le
-  have hnorm : @V3.norm K (fieldNum K sq) ⟨dir.x, 0, dir.z⟩ = sq (dir.x * dir.x + 0 * 0 + dir.z * dir.z) := rfl
-  have bound := fun q : V3 K => cone_bound hh r _ dir.x dir.y dir.z q.x q.y q.z hh0 hr hn0 hnn
-  rcases Bool.eq_false_or_eq_true (@neq K (fieldNum K sq) (@V3.norm K (fieldNum K sq) ⟨dir.x, 0, dir.z⟩) 0) with hb | hb
-  · rw [hnorm] at hb
-    have h0 := (neq_field sq _ _).1 hb
-    obtain ⟨hx, hz⟩ := xz_zero hnn h0
-    simp only [IsSupport3, Cone.Mem, coneLocal, hnorm, hb, if_true, V3.dot, fieldNum_two]
-    refine ⟨⟨hcm, ?_⟩, ?_⟩
-    · have := mul_nonneg (mul_self_nonneg r) (mul_self_nonneg (hh - @copysign K (fieldNum K sq) hh dir.y))
-      calc _ = (0:K) := by ring
-        _ ≤ _ := this
-    · rintro q ⟨hy, _⟩
-      have := csf_max sq hh dir.y q.y hh0.le hy
-      rw [hx, hz]
-      calc _ = dir.y * q.y := by ring
-        _ ≤ _ := this
-        _ = _ := by ring
-  · rw [hnorm] at hb
-    have h0 : sq (dir.x * dir.x + 0 * 0 + dir.z * dir.z) ≠ 0 := by
-      intro h; rw [(neq_field sq _ _).2 h] at hb; exact Bool.noConfusion hb
-    have hn := lt_of_le_of_ne hn0 (Ne.symm h0)
-    obtain ⟨e1, e2⟩ := unit_scale2 dir.x dir.z _ r hn hnn
-    simp only [IsSupport3, Cone.Mem, coneLocal, hnorm, hb, Bool.false_eq_true, if_false, V3.dot, V3.sdiv, V3.smul,
-      fieldNum_two]
-    have hB : dir.x * (dir.x / sq (dir.x * dir.x + 0 * 0 + dir.z * dir.z) * r) + dir.y * -hh
-        + dir.z * (dir.z / sq (dir.x * dir.x + 0 * 0 + dir.z * dir.z) * r)
-        = sq (dir.x * dir.x + 0 * 0 + dir.z * dir.z) * r - dir.y * hh := by rw [← e1]; ring
-    rw [hB]
-    split_ifs with c
-    · refine ⟨⟨⟨by linarith, le_refl _⟩, ?_⟩, ?_⟩
-      · calc _ = (0:K) := by ring
-          _ ≤ _ := by rw [sub_self]; simp
-      · rintro q ⟨hy, hq⟩
-        calc _ ≤ _ := bound q hy hq
-          _ = dir.y * hh := max_eq_left c.le
-          _ = _ := by ring
-    · refine ⟨⟨⟨le_refl _, by linarith⟩, ?_⟩, ?_⟩
-      · rw [e2]; apply le_of_eq; ring
-      · rintro q ⟨hy, hq⟩
-        calc _ ≤ _ := bound q hy hq
-          _ = _ := max_eq_right (not_lt.1 c)
-          _ = _ := hB.symm
-
-example : (0:ℝ) < 3/2 ∧ (0:ℝ) ≤ 1/4 := by norm_num
-
-/-! ## point clouds, convex polyhedra and polygons: first strict maximum over the vertex list -/
-
-/-- **C10 (point cloud / `ConvexPolyhedron`, 3-D)**: for every non-empty point list and every direction,
-`point_cloud_support_point_id` returns a valid index `i`; `point_cloud_support_point`
-(= `ConvexPolyhedron::local_support_point`) returns `pts[i]`; that point belongs to the convex hull of the
-list and maximises `dir·p` over the *whole hull* (not only over the listed points); and `i` is the *first*
-index attaining the maximum (every earlier point is strictly worse) — the tie-break of the code. -/
-theorem cloud_support3 (dir : V3 K) (pts : List (V3 K)) (hne : pts ≠ []) :
-    letI := fieldNum K sq
-    ∃ i p, cloudId3 dir pts = some i ∧ pts[i]? = some p ∧ cloudPoint3 dir pts = some p ∧
-      IsSupport3 sq (hullMem3 pts) dir p ∧
-      (∀ j q, j < i → pts[j]? = some q → dir.dot q < dir.dot p) := by
-  cases pts with
-  | nil => exact absurd rfl hne
-  | cons p0 ps =>
-    have hall : ∀ q ∈ [p0], @V3.dot K (fieldNum K sq) q dir ≤ @V3.dot K (fieldNum K sq) p0 dir := by
-      intro q hq
-      have : q = p0 := by simpa using hq
-      subst this; exact le_refl _
-    obtain ⟨pr, h1, h2, h3⟩ := cloudGo3_spec sq dir ps [p0] 0 (@V3.dot K (fieldNum K sq) p0 dir)
-      ⟨p0, rfl, rfl⟩ hall (by intro j hj; omega)
-    simp only [List.length_cons, List.length_nil, Nat.zero_add, List.singleton_append] at h1 h2 h3
-    refine ⟨_, pr, rfl, h1, ?_, ⟨hull3_of_getElem sq _ _ _ h1, ?_⟩, ?_⟩
-    · simp only [cloudPoint3, cloudId3]; exact h1
-    · intro q hq
-      refine hull3_le sq dir _ _ q hq (fun v hv => ?_)
-      rw [dot_comm3 sq dir v, dot_comm3 sq dir pr]; exact h2 v hv
-    · intro j q hj hq
-      rw [dot_comm3 sq dir q, dot_comm3 sq dir pr]; exact h3 j hj q hq
-
-example : ([⟨1, 0, 0⟩, ⟨0, 1, 0⟩, ⟨1, 0, 0⟩] : List (V3 ℚ)) ≠ [] := by simp
-
-/-- **C10 (`ConvexPolygon`, 2-D)**: the same for `ConvexPolygon::local_support_point`. -/
-theorem cloud_support2 (dir : V2 K) (pts : List (V2 K)) (hne : pts ≠ []) :
-    letI := fieldNum K sq
-    ∃ i p, cloudId2 dir pts = some i ∧ pts[i]? = some p ∧ cloudPoint2 dir pts = some p ∧
-      IsSupport2 sq (hullMem2 pts) dir p ∧
-      (∀ j q, j < i → pts[j]? = some q → dir.dot q < dir.dot p) := by
-  cases pts with
-  | nil => exact absurd rfl hne
-  | cons p0 ps =>
-    have hall : ∀ q ∈ [p0], @V2.dot K (fieldNum K sq) q dir ≤ @V2.dot K (fieldNum K sq) p0 dir := by
-      intro q hq
-      have : q = p0 := by simpa using hq
-      subst this; exact le_refl _
-    obtain ⟨pr, h1, h2, h3⟩ := cloudGo2_spec sq dir ps [p0] 0 (@V2.dot K (fieldNum K sq) p0 dir)
-      ⟨p0, rfl, rfl⟩ hall (by intro j hj; omega)
-    simp only [List.length_cons, List.length_nil, Nat.zero_add, List.singleton_append] at h1 h2 h3
-    refine ⟨_, pr, rfl, h1, ?_, ⟨hull2_of_getElem sq _ _ _ h1, ?_⟩, ?_⟩
-    · simp only [cloudPoint2, cloudId2]; exact h1
-    · intro q hq
-      refine hull2_le sq dir _ _ q hq (fun v hv => ?_)
-      rw [dot_comm2 sq dir v, dot_comm2 sq dir pr]; exact h2 v hv
-    · intro j q hj hq
-      rw [dot_comm2 sq dir q, dot_comm2 sq dir pr]; exact h3 j hj q hq
-
-/-- the only way `point_cloud_support_point_id` fails is the `points[0]` panic on an empty slice -/
-theorem cloud_none_iff (dir : V3 K) (pts : List (V3 K)) :
-    letI := fieldNum K sq
-    cloudId3 dir pts = none ↔ pts = [] := by
-  cases pts <;> simp [cloudId3]
-
-/-! ## RoundShape / DilatedShape: Minkowski sum with a ball -/
-
-/-- **C10 (RoundShape / DilatedShape, 3-D)**, generic in the inner shape: let `S` be any set and `inner` any
-function that returns a support point of `S` in the *normalised* direction (that is what the code passes to
-the inner `local_support_point_toward`).  Then for every border radius `br ≥ 0` and every non-zero direction
-`RoundShape::local_support_point` (same code in `DilatedShape`) is a point of `S ⊕ B(br)` maximising `dir·p`
-over `S ⊕ B(br)`. -/
-theorem round_support3 (hs : LawfulSqrt sq) (S : V3 K → Prop) (inner : V3 K → V3 K) (br : K) (dir : V3 K)
-    (hbr : 0 ≤ br) (hd : dir.x ≠ 0 ∨ dir.y ≠ 0 ∨ dir.z ≠ 0) :
-    letI := fieldNum K sq
-    IsSupport3 sq S (normalize3 dir) (inner (normalize3 dir)) →
-    IsSupport3 sq (roundMem3 S br) dir (roundLocal3 inner br dir) := by
-  have hpos := sumsq3_pos hd
-  have hn := norm_pos_of hs hpos
-  have hnn := hs.sq_mul _ hpos.le
-  obtain ⟨e1, e2⟩ := unit_scale3 dir.x dir.y dir.z _ br hn hnn
-  have hnorm : @normalize3 K (fieldNum K sq) dir
-      = @V3.sdiv K (fieldNum K sq) dir (sq (dir.x * dir.x + dir.y * dir.y + dir.z * dir.z)) := rfl
-  rintro ⟨hmem, hmax⟩
-  rw [hnorm] at hmem hmax
-  unfold IsSupport3 roundLocal3 roundToward3
-  rw [hnorm]
-  set n := sq (dir.x * dir.x + dir.y * dir.y + dir.z * dir.z) with hndef
-  set s := inner (@V3.sdiv K (fieldNum K sq) dir n) with hsdef
-  have hcmp : ∀ p : V3 K, @V3.dot K (fieldNum K sq) (@V3.sdiv K (fieldNum K sq) dir n) p
-      = (@V3.dot K (fieldNum K sq) dir p) / n := by
-    intro p; simp only [V3.dot, V3.sdiv]; field_simp
-  have hmax' : ∀ q, S q → @V3.dot K (fieldNum K sq) dir q ≤ @V3.dot K (fieldNum K sq) dir s := by
-    intro q hq
-    have := hmax q hq
-    rwa [hcmp, hcmp, div_le_div_iff_of_pos_right hn] at this
-  constructor
-  · refine ⟨s, hmem, ?_⟩
-    simp only [V3.normSq, V3.dot, V3.sub, V3.add, V3.smul, V3.sdiv]
-    have : ∀ u v : K, u + v - u = v := fun u v => by ring
-    rw [this, this, this]
-    exact le_of_eq e2
-  · rintro p ⟨c, hc, hp⟩
-    have h1 := hmax' c hc
-    have h2 := dot_le3 dir.x dir.y dir.z (p.x - c.x) (p.y - c.y) (p.z - c.z) n br hn.le hbr hnn
-      (by simpa only [V3.normSq, V3.dot, V3.sub] using hp)
-    simp only [V3.dot, V3.add, V3.smul, V3.sdiv] at h1 ⊢
-    nlinarith [e1]
-
-/-- **C10 (RoundShape, 2-D)**. -/
-theorem round_support2 (hs : LawfulSqrt sq) (S : V2 K → Prop) (inner : V2 K → V2 K) (br : K) (dir : V2 K)
-    (hbr : 0 ≤ br) (hd : dir.x ≠ 0 ∨ dir.y ≠ 0) :
-    letI := fieldNum K sq
-    IsSupport2 sq S (normalize2 dir) (inner (normalize2 dir)) →
-    IsSupport2 sq (roundMem2 S br) dir (roundLocal2 inner br dir) := by
-  have hpos := sumsq2_pos hd
-  have hn := norm_pos_of hs hpos
-  have hnn := hs.sq_mul _ hpos.le
-  obtain ⟨e1, e2⟩ := unit_scale2 dir.x dir.y _ br hn hnn
-  have hnorm : @normalize2 K (fieldNum K sq) dir
-      = @V2.sdiv K (fieldNum K sq) dir (sq (dir.x * dir.x + dir.y * dir.y)) := rfl
-  rintro ⟨hmem, hmax⟩
-  rw [hnorm] at hmem hmax
-  unfold IsSupport2 roundLocal2 roundToward2
-  rw [hnorm]
-  set n := sq (dir.x * dir.x + dir.y * dir.y) with hndef
-  set s := inner (@V2.sdiv K (fieldNum K sq) dir n) with hsdef
-  have hcmp : ∀ p : V2 K, @V2.dot K (fieldNum K sq) (@V2.sdiv K (fieldNum K sq) dir n) p
-      = (@V2.dot K (fieldNum K sq) dir p) / n := by
-    intro p; simp only [V2.dot, V2.sdiv]; field_simp
-  have hmax' : ∀ q, S q → @V2.dot K (fieldNum K sq) dir q ≤ @V2.dot K (fieldNum K sq) dir s := by
-    intro q hq
-    have := hmax q hq
-    rwa [hcmp, hcmp, div_le_div_iff_of_pos_right hn] at this
-  constructor
-  · refine ⟨s, hmem, ?_⟩
-    simp only [V2.normSq, V2.dot, V2.sub, V2.add, V2.smul, V2.sdiv]
-    have : ∀ u v : K, u + v - u = v := fun u v => by ring
-    rw [this, this]
-    exact le_of_eq e2
-  · rintro p ⟨c, hc, hp⟩
-    have h1 := hmax' c hc
-    have h2 := dot_le2 dir.x dir.y (p.x - c.x) (p.y - c.y) n br hn.le hbr hnn
-      (by simpa only [V2.normSq, V2.dot, V2.sub] using hp)
-    simp only [V2.dot, V2.add, V2.smul, V2.sdiv] at h1 ⊢
-    nlinarith [e1]
-
-/-- **C10 (`RoundCuboid`)**: instance of `round_support3` — a rounded cuboid's support point is a member of
-`cuboid ⊕ B(br)` and maximal over it. -/
-theorem round_cuboid_support3 (hs : LawfulSqrt sq) (he : V3 K) (br : K) (dir : V3 K)
-    (hx : 0 ≤ he.x) (hy : 0 ≤ he.y) (hz : 0 ≤ he.z) (hbr : 0 ≤ br) (hd : dir.x ≠ 0 ∨ dir.y ≠ 0 ∨ dir.z ≠ 0) :
-    letI := fieldNum K sq
-    IsSupport3 sq (roundMem3 (Cuboid3.mk he).Mem br) dir (roundLocal3 (cuboidLocal3 he) br dir) :=
-  round_support3 sq hs _ _ br dir hbr hd (cuboid_support3 sq he _ hx hy hz)
-
-/-- **C10 (`RoundCylinder`)**. -/
-theorem round_cylinder_support (hs : LawfulSqrt sq) (hh r br : K) (dir : V3 K)
-    (hh0 : 0 ≤ hh) (hr : 0 ≤ r) (hbr : 0 ≤ br) (hd : dir.x ≠ 0 ∨ dir.y ≠ 0 ∨ dir.z ≠ 0) :
-    letI := fieldNum K sq
-    IsSupport3 sq (roundMem3 (Cylinder.mk hh r).Mem br) dir (roundLocal3 (cylinderLocal hh r) br dir) :=
-  round_support3 sq hs _ _ br dir hbr hd (cylinder_support sq hs hh r _ hh0 hr)
-
-/-- **C10 (`RoundCone`)**. -/
-theorem round_cone_support (hs : LawfulSqrt sq) (hh r br : K) (dir : V3 K)
-    (hh0 : 0 < hh) (hr : 0 ≤ r) (hbr : 0 ≤ br) (hd : dir.x ≠ 0 ∨ dir.y ≠ 0 ∨ dir.z ≠ 0) :
-    letI := fieldNum K sq
-    IsSupport3 sq (roundMem3 (Cone.mk hh r).Mem br) dir (roundLocal3 (coneLocal hh r) br dir) :=
-  round_support3 sq hs _ _ br dir hbr hd (cone_support sq hs hh r _ hh0 hr)
-
-/-- **C10 (`RoundTriangle`)**. -/
-theorem round_triangle_support3 (hs : LawfulSqrt sq) (a b c : V3 K) (br : K) (dir : V3 K)
-    (hbr : 0 ≤ br) (hd : dir.x ≠ 0 ∨ dir.y ≠ 0 ∨ dir.z ≠ 0) :
-    letI := fieldNum K sq
-    IsSupport3 sq (roundMem3 (Triangle3.mk a b c).Mem br) dir (roundLocal3 (triangleLocal3 a b c) br dir) :=
-  round_support3 sq hs _ _ br dir hbr hd (triangle_support3 sq a b c _)
-
-/-- **C10 (`RoundCuboid`, 2-D)**. -/
-theorem round_cuboid_support2 (hs : LawfulSqrt sq) (he : V2 K) (br : K) (dir : V2 K)
-    (hx : 0 ≤ he.x) (hy : 0 ≤ he.y) (hbr : 0 ≤ br) (hd : dir.x ≠ 0 ∨ dir.y ≠ 0) :
-    letI := fieldNum K sq
-    IsSupport2 sq (roundMem2 (Cuboid2.mk he).Mem br) dir (roundLocal2 (cuboidLocal2 he) br dir) :=
-  round_support2 sq hs _ _ br dir hbr hd (cuboid_support2 sq he _ hx hy)
-
-/-- **C10 (`RoundConvexPolyhedron`)**: `RoundShape<ConvexPolyhedron>::local_support_point` is the vertex chosen
-by the point-cloud argmax in the normalised direction, pushed out by `br` along it, and it is a support point of
-`hull(pts) ⊕ B(br)`. -/
-theorem round_polyhedron_support (hs : LawfulSqrt sq) (pts : List (V3 K)) (br : K) (dir : V3 K) (hne : pts ≠ [])
-    (hbr : 0 ≤ br) (hd : dir.x ≠ 0 ∨ dir.y ≠ 0 ∨ dir.z ≠ 0) :
-    letI := fieldNum K sq
-    ∃ p, cloudPoint3 (normalize3 dir) pts = some p ∧
-      IsSupport3 sq (roundMem3 (hullMem3 pts) br) dir (roundLocal3 (fun _ => p) br dir) := by
-  obtain ⟨i, p, _, _, h3, h4, _⟩ := cloud_support3 sq (@normalize3 K (fieldNum K sq) dir) pts hne
-  exact ⟨p, h3, round_support3 sq hs _ (fun _ => p) br dir hbr hd h4⟩
-
-/-! ## posed variants: `support_point(m, dir) = m · local_support_point(mᵀ dir)` -/
-
-/-- `dir · (R q) = (Rᵀ dir) · q` for the quaternion sandwich of `Vec.lean` — a polynomial identity, no
-unit-norm assumption needed. -/
-private theorem dot_rot3 (m : Iso3 K) (dir q : V3 K) :
-    letI := fieldNum K sq
-    dir.dot (m.rot q) = (m.invRot dir).dot q := by
-  simp only [Iso3.rot, Iso3.invRot, Iso3.rotQ, Iso3.qv, V3.dot, V3.cross, V3.smul, V3.add, V3.neg, fieldNum_two]
-  ring
-private theorem dot_rot2 (m : Iso2 K) (dir q : V2 K) :
-    letI := fieldNum K sq
-    dir.dot (m.rot q) = (m.invRot dir).dot q := by
-  simp only [Iso2.rot, Iso2.invRot, V2.dot]
-  ring
-
-/-- **C10 (posed support point, 3-D)**: the trait default `support_point(m, dir)` *is*
-`m · local_support_point(mᵀ dir)` (by definition of the model, checked bit-exactly against the code), and
-maximisation transfers through the pose: if the local function returns a support point of `S` in direction
-`mᵀ dir`, then the posed function returns a support point of the posed set `m·S = {m·q | q ∈ S}` in direction
-`dir`.  Holds for every quaternion (not only unit ones) and every translation. -/
-theorem posed_support3 (S : V3 K → Prop) (loc : V3 K → V3 K) (m : Iso3 K) (dir : V3 K) :
-    letI := fieldNum K sq
-    supportPoint3 loc m dir = m.act (loc (m.invRot dir)) ∧
-    (IsSupport3 sq S (m.invRot dir) (loc (m.invRot dir)) →
-      IsSupport3 sq (fun p => ∃ q, S q ∧ p = m.act q) dir (supportPoint3 loc m dir)) := by
-  refine ⟨rfl, ?_⟩
-  rintro ⟨hmem, hmax⟩
-  refine ⟨⟨_, hmem, rfl⟩, ?_⟩
-  rintro p ⟨q, hq, rfl⟩
-  have h := hmax q hq
-  rw [← dot_rot3 sq, ← dot_rot3 sq] at h
-  simp only [supportPoint3, Iso3.act, V3.dot, V3.add] at h ⊢
-  linarith
-
-/-- **C10 (posed support point, 2-D)**. -/
-theorem posed_support2 (S : V2 K → Prop) (loc : V2 K → V2 K) (m : Iso2 K) (dir : V2 K) :
-    letI := fieldNum K sq
-    supportPoint2 loc m dir = m.act (loc (m.invRot dir)) ∧
-    (IsSupport2 sq S (m.invRot dir) (loc (m.invRot dir)) →
-      IsSupport2 sq (fun p => ∃ q, S q ∧ p = m.act q) dir (supportPoint2 loc m dir)) := by
-  refine ⟨rfl, ?_⟩
-  rintro ⟨hmem, hmax⟩
-  refine ⟨⟨_, hmem, rfl⟩, ?_⟩
-  rintro p ⟨q, hq, rfl⟩
-  have h := hmax q hq
-  rw [← dot_rot2 sq, ← dot_rot2 sq] at h
-  simp only [supportPoint2, Iso2.act, V2.dot, V2.add] at h ⊢
-  linarith
-
-/-! ## `_toward` = plain at a unit direction -/
-
-private theorem sq_one (hs : LawfulSqrt sq) : sq 1 = 1 := by
-  have h1 := hs.nonneg 1 zero_le_one
-  have h2 := hs.sq_mul 1 zero_le_one
-  nlinarith
-
-/-- normalising a unit vector is the identity -/
-private theorem normalize3_unit (hs : LawfulSqrt sq) (d : V3 K) :
-    letI := fieldNum K sq
-    d.normSq = 1 → normalize3 d = d := by
-  intro h
-  simp only [normalize3, V3.norm, fieldNum_sqrt]
-  rw [h, sq_one sq hs]
-  cases d; simp [V3.sdiv]
-private theorem normalize2_unit (hs : LawfulSqrt sq) (d : V2 K) :
-    letI := fieldNum K sq
-    d.normSq = 1 → normalize2 d = d := by
-  intro h
-  simp only [normalize2, V2.norm, fieldNum_sqrt]
-  rw [h, sq_one sq hs]
-  cases d; simp [V2.sdiv]
-
-/-- **C10 (`_toward` = plain at unit `dir`, 3-D)**: for the shapes that override `local_support_point_toward`
-(ball, capsule, RoundShape/DilatedShape over any inner function) the plain variant at a unit direction returns
-exactly the `_toward` result.  (All other shapes use the trait default, where `_toward` *is* the plain function.) -/
-theorem toward_eq_local3 (hs : LawfulSqrt sq) (d : V3 K) (r : K) (a b : V3 K) (inner : V3 K → V3 K) :
-    letI := fieldNum K sq
-    d.normSq = 1 →
-      ballLocal3 r d = ballToward3 r d ∧
-      capsuleLocal3 a b r d = capsuleToward3 a b r d ∧
-      roundLocal3 inner r d = roundToward3 inner r d := by
-  intro h
-  have hn := normalize3_unit sq hs d h
-  refine ⟨by unfold ballLocal3; rw [hn], ?_, by unfold roundLocal3; rw [hn]⟩
-  have htn : @tryNew3 K (fieldNum K sq) d 0 = some d := by
-    simp only [tryNew3, fieldNum_sqrt]
-    rw [h, sq_one sq hs, if_pos (by norm_num)]
-    cases d; simp [V3.sdiv]
-  unfold capsuleLocal3; rw [htn]; rfl
-
-example : (@V3.normSq ℚ (fieldNum ℚ id) ⟨3/5, 0, -4/5⟩) = 1 := by
-  simp only [V3.normSq, V3.dot]; norm_num
-
-/-- **C10 (`_toward` = plain at unit `dir`, 2-D)**. -/
-theorem toward_eq_local2 (hs : LawfulSqrt sq) (d : V2 K) (r : K) (a b : V2 K) (inner : V2 K → V2 K) :
-    letI := fieldNum K sq
-    d.normSq = 1 →
-      ballLocal2 r d = ballToward2 r d ∧
-      capsuleLocal2 a b r d = capsuleToward2 a b r d ∧
-      roundLocal2 inner r d = roundToward2 inner r d := by
-  intro h
-  have hn := normalize2_unit sq hs d h
-  refine ⟨by unfold ballLocal2; rw [hn], ?_, by unfold roundLocal2; rw [hn]⟩
-  have htn : @tryNew2 K (fieldNum K sq) d 0 = some d := by
-    simp only [tryNew2, fieldNum_sqrt]
-    rw [h, sq_one sq hs, if_pos (by norm_num)]
-    cases d; simp [V2.sdiv]
-  unfold capsuleLocal2; rw [htn]; rfl
-
-/-! ## Ball and DilatedShape override the posed variants: they agree with the trait default -/
-
-private theorem v3_ext {a b : V3 K} (hx : a.x = b.x) (hy : a.y = b.y) (hz : a.z = b.z) : a = b := by
-  cases a; cases b; simp_all
-private theorem v2_ext {a b : V2 K} (hx : a.x = b.x) (hy : a.y = b.y) : a = b := by
-  cases a; cases b; simp_all
-
-/-- `R (Rᵀ d) = d` for a unit quaternion -/
-private theorem rot_invRot3 (m : Iso3 K) (d : V3 K)
-    (hq : m.qi * m.qi + m.qj * m.qj + m.qk * m.qk + m.qw * m.qw = 1) :
-    letI := fieldNum K sq
-    m.rot (m.invRot d) = d := by
-  apply v3_ext <;>
-    simp only [Iso3.rot, Iso3.invRot, Iso3.rotQ, Iso3.qv, V3.cross, V3.smul, V3.add, V3.neg, fieldNum_two]
-  · linear_combination (-4 * (m.qi * (m.qi * d.x + m.qj * d.y + m.qk * d.z) - (m.qi * m.qi + m.qj * m.qj + m.qk * m.qk) * d.x)) * hq
-  · linear_combination (-4 * (m.qj * (m.qi * d.x + m.qj * d.y + m.qk * d.z) - (m.qi * m.qi + m.qj * m.qj + m.qk * m.qk) * d.y)) * hq
-  · linear_combination (-4 * (m.qk * (m.qi * d.x + m.qj * d.y + m.qk * d.z) - (m.qi * m.qi + m.qj * m.qj + m.qk * m.qk) * d.z)) * hq
-
-/-- `|Rᵀ d|² = |d|²` for a unit quaternion -/
-private theorem normSq_invRot3 (m : Iso3 K) (d : V3 K)
-    (hq : m.qi * m.qi + m.qj * m.qj + m.qk * m.qk + m.qw * m.qw = 1) :
-    letI := fieldNum K sq
-    (m.invRot d).normSq = d.normSq := by
-  simp only [Iso3.invRot, Iso3.rotQ, Iso3.qv, V3.normSq, V3.dot, V3.cross, V3.smul, V3.add, V3.neg, fieldNum_two]
-  linear_combination (4 * ((m.qj * d.z - m.qk * d.y) * (m.qj * d.z - m.qk * d.y) + (m.qk * d.x - m.qi * d.z) * (m.qk * d.x - m.qi * d.z)
-    + (m.qi * d.y - m.qj * d.x) * (m.qi * d.y - m.qj * d.x))) * hq
-
-/-- rotations commute with `v ↦ v / n · r` -/
-private theorem rot_scale3 (m : Iso3 K) (v : V3 K) (n r : K) :
-    letI := fieldNum K sq
-    m.rot ((v.sdiv n).smul r) = ((m.rot v).sdiv n).smul r := by
-  apply v3_ext <;>
-    simp only [Iso3.rot, Iso3.rotQ, Iso3.qv, V3.cross, V3.smul, V3.sdiv, V3.add, fieldNum_two] <;> ring
-private theorem invRot_scale3 (m : Iso3 K) (v : V3 K) (n : K) :
-    letI := fieldNum K sq
-    m.invRot (v.sdiv n) = (m.invRot v).sdiv n := by
-  apply v3_ext <;>
-    simp only [Iso3.invRot, Iso3.rotQ, Iso3.qv, V3.cross, V3.smul, V3.sdiv, V3.add, V3.neg, fieldNum_two] <;> ring
-
-private theorem rot_add3 (m : Iso3 K) (a b : V3 K) :
-    letI := fieldNum K sq
-    m.rot (a.add b) = (m.rot a).add (m.rot b) := by
-  apply v3_ext <;>
-    simp only [Iso3.rot, Iso3.rotQ, Iso3.qv, V3.cross, V3.smul, V3.add, fieldNum_two] <;> ring
-
-/-- **C10 (Ball, posed)**: `Ball` overrides `support_point` with `translation + dir/|dir| · r`; for every unit
-quaternion this equals the trait default `m · local_support_point(mᵀ dir)`, so `posed_support3` applies to it. -/
-theorem ball_posed_eq_default3 (r : K) (m : Iso3 K) (dir : V3 K)
-    (hq : m.qi * m.qi + m.qj * m.qj + m.qk * m.qk + m.qw * m.qw = 1) :
-    letI := fieldNum K sq
-    ballPosed3 r m dir = supportPoint3 (ballLocal3 r) m dir := by
-  have h1 := normSq_invRot3 sq m dir hq
-  simp only [ballPosed3, ballPosedToward3, supportPoint3, ballLocal3, ballToward3, normalize3, V3.norm, Iso3.act]
-  rw [h1, rot_scale3 sq, rot_invRot3 sq m dir hq]
-  apply v3_ext <;> simp only [V3.add] <;> ring
-
-example : ((0:ℚ) * 0 + (3/5) * (3/5) + 0 * 0 + (4/5) * (4/5) = 1) := by norm_num
-
-/-- **C10 (DilatedShape, posed)**: `DilatedShape` overrides `support_point` with
-`inner.support_point_toward(m, d̂) + d̂ · radius` (`d̂ = dir/|dir|`); for every unit quaternion this equals the trait
-default `m · local_support_point(mᵀ dir)` of the dilated shape. -/
-theorem dilated_posed_eq_default3 (inner : V3 K → V3 K) (rad : K) (m : Iso3 K) (dir : V3 K)
-    (hq : m.qi * m.qi + m.qj * m.qj + m.qk * m.qk + m.qw * m.qw = 1) :
-    letI := fieldNum K sq
-    dilatedPosed3 inner rad m dir = supportPoint3 (roundLocal3 inner rad) m dir := by
-  have h1 := normSq_invRot3 sq m dir hq
-  simp only [dilatedPosed3, dilatedPosedToward3, supportPointToward3, supportPoint3, roundLocal3, roundToward3,
-    normalize3, V3.norm, Iso3.act]
-  rw [h1, invRot_scale3 sq, rot_add3 sq, rot_scale3 sq, rot_invRot3 sq m dir hq]
-  apply v3_ext <;> simp only [V3.add] <;> ring
-
-/-- **C10 (Ball, posed, 2-D)**: same for a unit complex rotation. -/
-theorem ball_posed_eq_default2 (r : K) (m : Iso2 K) (dir : V2 K) (hq : m.re * m.re + m.im * m.im = 1) :
-    letI := fieldNum K sq
-    ballPosed2 r m dir = supportPoint2 (ballLocal2 r) m dir := by
-  have h1 : @V2.normSq K (fieldNum K sq) (@Iso2.invRot K (fieldNum K sq) m dir) = @V2.normSq K (fieldNum K sq) dir := by
-    simp only [Iso2.invRot, V2.normSq, V2.dot]
-    linear_combination (dir.x * dir.x + dir.y * dir.y) * hq
-  simp only [ballPosed2, ballPosedToward2, supportPoint2, ballLocal2, ballToward2, normalize2, V2.norm, Iso2.act]
-  rw [h1]
-  apply v2_ext <;> simp only [V2.add, V2.smul, V2.sdiv, Iso2.rot, Iso2.invRot]
-  · linear_combination (-(dir.x / @Num.sqrt K (fieldNum K sq) (@V2.normSq K (fieldNum K sq) dir) * r)) * hq
-  · linear_combination (-(dir.y / @Num.sqrt K (fieldNum K sq) (@V2.normSq K (fieldNum K sq) dir) * r)) * hq
-
-/-! ## feature maps -/
-
-/-- `iamax` returns an index of a component of largest absolute value -/
-private theorem iamax3_spec (v : V3 K) :
-    letI := fieldNum K sq
-    iamax3 v < 3 ∧ |v.x| ≤ |v.get (iamax3 v)| ∧ |v.y| ≤ |v.get (iamax3 v)| ∧ |v.z| ≤ |v.get (iamax3 v)| := by
-  simp only [iamax3, fieldNum_nabs, V3.get]
-  split_ifs <;> simp_all <;> (try constructor) <;> linarith
-
-/-- `copysign 1 d` is `-1` for `d < 0` and `1` otherwise -/
-private theorem copysign_one (d : K) :
-    letI := fieldNum K sq
-    copysign 1 d = if d < 0 then -1 else 1 := by
-  rw [copysign_field]; simp
-
-/-- **C10 (cuboid `support_face`, 3-D)**: for every cuboid with non-negative half-extents and every direction,
-with `i = iamax(dir)` the axis chosen by the code:
-(1) `|dir_j| ≤ |dir_i|` for every axis `j` (the face normal is the dominant axis of `dir`);
-(2) every returned vertex belongs to the cuboid and lies on the supporting plane of that face:
-    its `i`-th coordinate is `+he_i` if `dir_i ≥ 0` and `-he_i` if `dir_i < 0`;
-(3) the face contains the support point: `Cuboid::local_support_point(dir)` is one of the four vertices —
-    so the returned face is a supporting face of the cuboid for `dir`. -/
-theorem cuboid_face_vertices3 (he dir : V3 K) (hx : 0 ≤ he.x) (hy : 0 ≤ he.y) (hz : 0 ≤ he.z) :
-    letI := fieldNum K sq
-    (|dir.x| ≤ |dir.get (iamax3 dir)| ∧ |dir.y| ≤ |dir.get (iamax3 dir)| ∧ |dir.z| ≤ |dir.get (iamax3 dir)|) ∧
-    (∀ v ∈ (cuboidSupportFace3 he dir).verts, (Cuboid3.mk he).Mem v ∧
-        v.get (iamax3 dir) = if dir.get (iamax3 dir) < 0 then -(he.get (iamax3 dir)) else he.get (iamax3 dir)) ∧
-    cuboidLocal3 he dir ∈ (cuboidSupportFace3 he dir).verts := by
-  obtain ⟨hi, h1, h2, h3⟩ := iamax3_spec sq dir
-  refine ⟨⟨h1, h2, h3⟩, ?_⟩
-  unfold cuboidSupportFace3 cuboidLocal3
-  simp only [copysign_field, abs_one, abs_of_nonneg hx, abs_of_nonneg hy, abs_of_nonneg hz]
-  generalize @iamax3 K (fieldNum K sq) dir = i at hi ⊢
-  have hc : i = 0 ∨ i = 1 ∨ i = 2 := by omega
-  rcases hc with rfl | rfl | rfl
-  · simp only [V3.get, if_true, Cuboid3.Mem, List.mem_cons, List.not_mem_nil, or_false]
-    refine ⟨?_, ?_⟩
-    · rintro v (rfl | rfl | rfl | rfl) <;> split_ifs <;>
-        (refine ⟨⟨⟨?_, ?_⟩, ⟨?_, ?_⟩, ⟨?_, ?_⟩⟩, ?_⟩) <;> simp only [mul_neg, mul_one] <;> linarith
-    · split_ifs <;> simp
-  · simp only [V3.get, one_ne_zero, if_false, if_true, Cuboid3.Mem, List.mem_cons, List.not_mem_nil, or_false]
-    refine ⟨?_, ?_⟩
-    · rintro v (rfl | rfl | rfl | rfl) <;> split_ifs <;>
-        (refine ⟨⟨⟨?_, ?_⟩, ⟨?_, ?_⟩, ⟨?_, ?_⟩⟩, ?_⟩) <;> simp only [mul_neg, mul_one] <;> linarith
-    · split_ifs <;> simp
-  · simp only [V3.get, OfNat.ofNat_ne_zero, OfNat.ofNat_ne_one, if_false, Cuboid3.Mem, List.mem_cons, List.not_mem_nil, or_false]
-    refine ⟨?_, ?_⟩
-    · rintro v (rfl | rfl | rfl | rfl) <;> split_ifs <;>
-        (refine ⟨⟨⟨?_, ?_⟩, ⟨?_, ?_⟩, ⟨?_, ?_⟩⟩, ?_⟩) <;> simp only [mul_neg, mul_one] <;> linarith
-    · split_ifs <;> simp
-
-private theorem ite_neg_one_lt (d : K) : ((if d < 0 then (-1:K) else 1) < 0) ↔ d < 0 := by
-  split_ifs with h <;> simp [h]
-
-/-- sign pattern of a 3-D vertex, as documented in `cuboid.rs`: "a + sign means the corresponding bit is 0 while a
-- sign means the corresponding bit is 1; the vertex [2.0, -1.0, -3.0] has the id 0b011". -/
-def pat3 (v : V3 K) : Nat := (if v.x < 0 then 4 else 0) + (if v.y < 0 then 2 else 0) + (if v.z < 0 then 1 else 0)
-
-/-- **C10 (cuboid `support_face` feature ids, 3-D; corrected behaviour, see `fixes/C10-cuboid3-face-ids.diff`)**:
-for every cuboid with positive half-extents and every direction
-(1) each vertex id is twice the sign pattern of *its own* vertex — hence a vertex has the same id whichever face
-    returns it, and distinct vertices have distinct ids;
-(2) each edge id is `0b11000000 | (hi << 3) | lo` of the sign patterns of its two end vertices (edge `k` joins
-    vertices `k` and `k+1 mod 4`);
-(3) the face id is `10 + axis` for a face with outward normal `+axis` and `13 + axis` for `-axis`.
-On the pinned tree (1) and (3) are false (`sign_index` is inverted): the correspondence check reports it. -/
-theorem cuboid_face_ids3 (he dir : V3 K) (hx : 0 < he.x) (hy : 0 < he.y) (hz : 0 < he.z) :
-    letI := fieldNum K sq
-    (cuboidSupportFace3 he dir).vids = (cuboidSupportFace3 he dir).verts.map (fun v => 2 * pat3 v) ∧
-    (cuboidSupportFace3 he dir).eids =
-      List.zipWith (fun a b => 192 + 8 * max (a / 2) (b / 2) + min (a / 2) (b / 2))
-        (cuboidSupportFace3 he dir).vids ((cuboidSupportFace3 he dir).vids.rotateLeft 1) ∧
-    (cuboidSupportFace3 he dir).fid = 10 + iamax3 dir + (if dir.get (iamax3 dir) < 0 then 3 else 0) := by
-  obtain ⟨hi, -⟩ := iamax3_spec sq dir
-  have nx : ¬ he.x < 0 := not_lt.2 hx.le
-  have ny : ¬ he.y < 0 := not_lt.2 hy.le
-  have nz : ¬ he.z < 0 := not_lt.2 hz.le
-  have px : -he.x < 0 := neg_lt_zero.2 hx
-  have py : -he.y < 0 := neg_lt_zero.2 hy
-  have pz : -he.z < 0 := neg_lt_zero.2 hz
-  unfold cuboidSupportFace3
-  simp only [copysign_field, abs_one, ite_neg_one_lt, decide_eq_true_eq]
-  generalize @iamax3 K (fieldNum K sq) dir = i at hi ⊢
-  have hc : i = 0 ∨ i = 1 ∨ i = 2 := by omega
-  rcases hc with rfl | rfl | rfl
-  · simp only [V3.get, if_true]
-    split_ifs with c <;>
-      simp [pat3, c, nx, ny, nz, px, py, pz, List.rotateLeft]
-  · simp only [V3.get, one_ne_zero, if_false, if_true]
-    split_ifs with c <;>
-      simp [pat3, c, nx, ny, nz, px, py, pz, List.rotateLeft]
-  · simp only [V3.get, OfNat.ofNat_ne_zero, OfNat.ofNat_ne_one, if_false]
-    split_ifs with c <;>
-      simp [pat3, c, nx, ny, nz, px, py, pz, List.rotateLeft]
-
-example : (0:ℚ) < (⟨1, 2, 3⟩ : V3 ℚ).x ∧ (0:ℚ) < (⟨1, 2, 3⟩ : V3 ℚ).y ∧ (0:ℚ) < (⟨1, 2, 3⟩ : V3 ℚ).z := by norm_num
-
-private theorem signNeg_field (x : K) : letI := fieldNum K sq; signNeg x = decide (x < 0) := by
-  unfold signNeg
-  congr 1
-  apply propext
-  constructor
-  · rintro (h | h)
-    · exact h
-    · exact one_div_neg.mp h
-  · exact Or.inl
-
-/-- sign pattern of a 2-D vertex: bit 0 = `x < 0`, bit 1 = `y < 0` -/
-def pat2 (v : V2 K) : Nat := (if v.x < 0 then 1 else 0) + (if v.y < 0 then 2 else 0)
-
-/-- **C10 (cuboid `support_face`, 2-D)**: with `i = iamin(dir)` and `j` the other axis (the face normal):
-(1) `|dir_i| ≤ |dir_j|`;  (2) both returned vertices belong to the cuboid and lie on the supporting line
-`p_j = ±he_j` (sign of `dir_j`);  (3) `Cuboid::local_support_point(dir)` is one of the two vertices. -/
-theorem cuboid_face_vertices2 (he dir : V2 K) (hx : 0 ≤ he.x) (hy : 0 ≤ he.y) :
-    letI := fieldNum K sq
-    |dir.get (iamin2 dir)| ≤ |dir.get ((iamin2 dir + 1) % 2)| ∧
-    (∀ v ∈ (cuboidSupportFace2 he dir).verts, (Cuboid2.mk he).Mem v ∧
-      v.get ((iamin2 dir + 1) % 2) = if dir.get ((iamin2 dir + 1) % 2) < 0 then -(he.get ((iamin2 dir + 1) % 2))
-        else he.get ((iamin2 dir + 1) % 2)) ∧
-    cuboidLocal2 he dir ∈ (cuboidSupportFace2 he dir).verts := by
-  have key : (@iamin2 K (fieldNum K sq) dir = 1 ∧ |dir.y| < |dir.x|) ∨ (@iamin2 K (fieldNum K sq) dir = 0 ∧ |dir.x| ≤ |dir.y|) := by
-    unfold iamin2; simp only [fieldNum_nabs]
-    split_ifs with c
-    · exact Or.inl ⟨rfl, c⟩
-    · exact Or.inr ⟨rfl, not_lt.1 c⟩
-  unfold cuboidSupportFace2 cuboidLocal2
-  simp only [copysign_field, abs_of_nonneg hx, abs_of_nonneg hy]
-  generalize @iamin2 K (fieldNum K sq) dir = i at key ⊢
-  rcases key with ⟨rfl, c⟩ | ⟨rfl, c⟩
-  · simp only [V2.get, V2.set, V2.zero, Nat.reduceAdd, Nat.reduceMod, one_ne_zero, if_true, if_false, Cuboid2.Mem,
-      List.mem_cons, List.not_mem_nil, or_false]
-    refine ⟨c.le, ?_, ?_⟩
-    · rintro v (rfl | rfl) <;> split_ifs <;> refine ⟨⟨⟨?_, ?_⟩, ⟨?_, ?_⟩⟩, ?_⟩ <;>
-        simp only [abs_of_nonneg hx, abs_of_nonneg hy] <;> first | linarith | rfl
-    · split_ifs <;> simp [abs_of_nonneg hx, abs_of_nonneg hy]
-  · simp only [V2.get, V2.set, V2.zero, Nat.reduceAdd, Nat.reduceMod, one_ne_zero, if_true, if_false, Cuboid2.Mem,
-      List.mem_cons, List.not_mem_nil, or_false, zero_add]
-    refine ⟨c, ?_, ?_⟩
-    · rintro v (rfl | rfl) <;> split_ifs <;> refine ⟨⟨⟨?_, ?_⟩, ⟨?_, ?_⟩⟩, ?_⟩ <;>
-        simp only [abs_of_nonneg hx, abs_of_nonneg hy] <;> first | linarith | rfl
-    · split_ifs <;> simp [abs_of_nonneg hx, abs_of_nonneg hy]
-
-/-- **C10 (2-D cuboid feature ids; corrected behaviour, see `fixes/C10-cuboid2-vertex-feature-id.diff`)**: for
-positive half-extents the two vertex ids are the sign patterns of the two vertices (`[x<0] + 2·[y<0]`, so they
-differ), and the face id is `(hi << 2) | lo | 0b110000` of them.  On the pinned f64 tree both ids are 0. -/
-theorem cuboid_face_ids2 (he dir : V2 K) (hx : 0 < he.x) (hy : 0 < he.y) :
-    letI := fieldNum K sq
-    (cuboidSupportFace2 he dir).vids = (cuboidSupportFace2 he dir).verts.map pat2 ∧
-    (∃ a b, (cuboidSupportFace2 he dir).vids = [a, b] ∧ a ≠ b ∧
-      (cuboidSupportFace2 he dir).fid = max a b * 4 + min a b + 48) := by
-  have nx : ¬ he.x < 0 := not_lt.2 hx.le
-  have ny : ¬ he.y < 0 := not_lt.2 hy.le
-  have px : -he.x < 0 := neg_lt_zero.2 hx
-  have py : -he.y < 0 := neg_lt_zero.2 hy
-  have key : @iamin2 K (fieldNum K sq) dir = 1 ∨ @iamin2 K (fieldNum K sq) dir = 0 := by
-    unfold iamin2; split_ifs <;> simp
-  unfold cuboidSupportFace2 vertexFeatureId2
-  simp only [copysign_field, signNeg_field, decide_eq_true_eq, abs_of_pos hx, abs_of_pos hy]
-  generalize @iamin2 K (fieldNum K sq) dir = i at key ⊢
-  rcases key with rfl | rfl
-  · simp only [V2.get, V2.set, V2.zero, Nat.reduceAdd, Nat.reduceMod, one_ne_zero, if_true, if_false,
-      abs_of_pos hx, abs_of_pos hy]
-    by_cases c : dir.x < 0 <;> simp [pat2, c, nx, ny, px, py]
-  · simp only [V2.get, V2.set, V2.zero, Nat.reduceAdd, Nat.reduceMod, one_ne_zero, if_true, if_false, zero_add,
-      abs_of_pos hx, abs_of_pos hy]
-    by_cases c : dir.y < 0 <;> simp [pat2, c, nx, ny, px, py]
-
-/-- **C10 (segment / triangle feature maps)**: `PolygonalFeature::from(Segment)`, `from(Triangle)` (=
-`Triangle::support_face` in 3-D) return exactly the shape's own vertices, which are points of the shape. -/
-theorem segment_triangle_features (a b c : V3 K) (a2 b2 : V2 K) :
-    letI := fieldNum K sq
-    ((triangleSupportFace3 a b c).verts = [a, b, c] ∧ ∀ v ∈ (triangleSupportFace3 a b c).verts, (Triangle3.mk a b c).Mem v) ∧
-    ((segmentFeature3 a b).verts = [a, b] ∧ ∀ v ∈ (segmentFeature3 a b).verts, (Segment3.mk a b).Mem v) ∧
-    ((segmentFeature2 a2 b2).verts = [a2, b2] ∧ ∀ v ∈ (segmentFeature2 a2 b2).verts, (Segment2.mk a2 b2).Mem v) := by
-  obtain ⟨ma, mb, mc⟩ := tri3_mem sq a b c
-  refine ⟨⟨rfl, ?_⟩, ⟨rfl, ?_⟩, ⟨rfl, ?_⟩⟩
-  · intro v hv
-    simp only [triangleSupportFace3, List.mem_cons, List.not_mem_nil, or_false] at hv
-    rcases hv with h | h | h <;> rw [h] <;> assumption
-  · intro v hv
-    simp only [segmentFeature3, List.mem_cons, List.not_mem_nil, or_false] at hv
-    rcases hv with h | h <;> rw [h]
-    · exact seg3_mem_a sq a b
-    · exact seg3_mem_b sq a b
-  · intro v hv
-    simp only [segmentFeature2, List.mem_cons, List.not_mem_nil, or_false] at hv
-    rcases hv with h | h <;> rw [h]
-    · exact seg2_mem_a sq a2 b2
-    · exact seg2_mem_b sq a2 b2
-
-private theorem imin3_spec (v : V3 K) :
-    letI := fieldNum K sq
-    imin3 v < 3 ∧ v.get (imin3 v) ≤ v.x ∧ v.get (imin3 v) ≤ v.y ∧ v.get (imin3 v) ≤ v.z := by
-  simp only [imin3, V3.get]
-  split_ifs <;> simp_all <;> (try constructor) <;> linarith
-
-/-- **C10 (`Triangle::local_support_edge_segment`)**: the returned edge is an edge of the triangle (both end
-points are triangle vertices, hence points of the triangle) and one of its end points is a support point of
-the triangle for `dir` — the edge opposite to the *worst* vertex always contains a best one. -/
-theorem triangle_edge_support (a b c dir : V3 K) :
-    letI := fieldNum K sq
-    ((Triangle3.mk a b c).Mem (triangleSupportEdge3 a b c dir).1 ∧ (Triangle3.mk a b c).Mem (triangleSupportEdge3 a b c dir).2) ∧
-    (IsSupport3 sq (Triangle3.mk a b c).Mem dir (triangleSupportEdge3 a b c dir).1 ∨
-     IsSupport3 sq (Triangle3.mk a b c).Mem dir (triangleSupportEdge3 a b c dir).2) := by
-  obtain ⟨ma, mb, mc⟩ := tri3_mem sq a b c
-  obtain ⟨hi, h1, h2, h3⟩ := imin3_spec sq
-    (⟨@V3.dot K (fieldNum K sq) dir a, @V3.dot K (fieldNum K sq) dir b, @V3.dot K (fieldNum K sq) dir c⟩ : V3 K)
-  unfold triangleSupportEdge3 IsSupport3
-  simp only []
-  generalize @imin3 K (fieldNum K sq) ⟨@V3.dot K (fieldNum K sq) dir a, @V3.dot K (fieldNum K sq) dir b,
-    @V3.dot K (fieldNum K sq) dir c⟩ = i at hi h1 h2 h3 ⊢
-  have hc : i = 0 ∨ i = 1 ∨ i = 2 := by omega
-  rcases hc with rfl | rfl | rfl
-  · simp only [V3.get, if_true] at h1 h2 h3 ⊢
-    refine ⟨⟨mb, mc⟩, ?_⟩
-    rcases le_total (@V3.dot K (fieldNum K sq) dir b) (@V3.dot K (fieldNum K sq) dir c) with h | h
-    · exact Or.inr ⟨mc, fun q hq => tri3_max sq a b c dir q _ hq h3 h (le_refl _)⟩
-    · exact Or.inl ⟨mb, fun q hq => tri3_max sq a b c dir q _ hq h2 (le_refl _) h⟩
-  · simp only [V3.get, one_ne_zero, if_false, if_true] at h1 h2 h3 ⊢
-    refine ⟨⟨mc, ma⟩, ?_⟩
-    rcases le_total (@V3.dot K (fieldNum K sq) dir a) (@V3.dot K (fieldNum K sq) dir c) with h | h
-    · exact Or.inl ⟨mc, fun q hq => tri3_max sq a b c dir q _ hq h h3 (le_refl _)⟩
-    · exact Or.inr ⟨ma, fun q hq => tri3_max sq a b c dir q _ hq (le_refl _) h1 h⟩
-  · simp only [V3.get, OfNat.ofNat_ne_zero, OfNat.ofNat_ne_one, if_false] at h1 h2 h3 ⊢
-    refine ⟨⟨ma, mb⟩, ?_⟩
-    rcases le_total (@V3.dot K (fieldNum K sq) dir a) (@V3.dot K (fieldNum K sq) dir b) with h | h
-    · exact Or.inr ⟨mb, fun q hq => tri3_max sq a b c dir q _ hq h (le_refl _) h2⟩
-    · exact Or.inl ⟨ma, fun q hq => tri3_max sq a b c dir q _ hq (le_refl _) h h1⟩
-
-/-! ### cylinder / cone feature maps: generator segments and inscribed cap squares -/
-
-private theorem eps_pos : letI := fieldNum K sq; (0:K) < eps := by
-  simp only [eps, fieldNum_lit]
-  have : (0:ℚ) < mkRat 1 4503599627370496 := by rw [Rat.mkRat_eq_div]; norm_num
-  exact_mod_cast this
-
-/-- `dir2` (the normalised `(dir.x, dir.z)`, or the fall-back `(1,0)`) is a unit vector -/
-private theorem capDir_unit (hs : LawfulSqrt sq) (dir : V3 K) :
-    letI := fieldNum K sq
-    (capDir dir).x * (capDir dir).x + (capDir dir).y * (capDir dir).y = 1 := by
-  have h0 : 0 ≤ dir.x * dir.x + dir.z * dir.z := by nlinarith [mul_self_nonneg dir.x, mul_self_nonneg dir.z]
-  have hnn := hs.sq_mul _ h0
-  by_cases c : sq (dir.x * dir.x + dir.z * dir.z) ≤ @eps K (fieldNum K sq)
-  · simp [capDir, tryNormalize2, V2.norm, V2.normSq, V2.dot, fieldNum_sqrt, c]
-  · have hn : 0 < sq (dir.x * dir.x + dir.z * dir.z) := lt_trans (eps_pos sq) (not_le.1 c)
-    have hne := ne_of_gt hn
-    simp only [capDir, tryNormalize2, V2.norm, V2.normSq, V2.dot, fieldNum_sqrt, c, if_false, Option.getD_some, V2.sdiv]
-    generalize sq (dir.x * dir.x + dir.z * dir.z) = n at hnn hne
-    have : dir.x / n * (dir.x / n) + dir.z / n * (dir.z / n) = (dir.x * dir.x + dir.z * dir.z) / (n * n) := by
-      field_simp
-    rw [this, ← hnn, div_self (mul_ne_zero hne hne)]
-
-/-- **C10 (cylinder `local_support_feature`)**: for `half_height ≥ 0`, `radius ≥ 0` and every direction the
-returned feature is, for some point `(p,q)` of the circle `p²+q² = r²`, either the generator segment
-`(p,-hh,q)–(p,hh,q)` of the curved part, or the square `(p,y,q),(-q,y,p),(-p,y,-q),(q,y,-p)` inscribed in the cap
-circle at `y = ±hh` on the side of `dir.y`; in both cases every vertex is a point of the cylinder (on its rim). -/
-theorem cylinder_feature_vertices (hs : LawfulSqrt sq) (hh r : K) (dir : V3 K) (hh0 : 0 ≤ hh) :
-    letI := fieldNum K sq
-    ∃ p q : K, p * p + q * q = r * r ∧
-      ((cylinderFeature hh r dir).verts = [⟨p, -hh, q⟩, ⟨p, hh, q⟩] ∨
-       (cylinderFeature hh r dir).verts =
-         [⟨p, if dir.y < 0 then -hh else hh, q⟩, ⟨-q, if dir.y < 0 then -hh else hh, p⟩,
-          ⟨-p, if dir.y < 0 then -hh else hh, -q⟩, ⟨q, if dir.y < 0 then -hh else hh, -p⟩]) ∧
-      ∀ v ∈ (cylinderFeature hh r dir).verts, (Cylinder.mk hh r).Mem v := by
-  have hu := capDir_unit sq hs dir
-  refine ⟨(@capDir K (fieldNum K sq) dir).x * r, (@capDir K (fieldNum K sq) dir).y * r, by linear_combination (r * r) * hu, ?_⟩
-  have hmem : ∀ y : K, (y = hh ∨ y = -hh) → ∀ p q : K, p * p + q * q = r * r →
-      @Cylinder.Mem K (fieldNum K sq) (Cylinder.mk hh r) ⟨p, y, q⟩ := by
-    intro y hy p q hpq
-    refine ⟨?_, le_of_eq hpq⟩
-    rcases hy with rfl | rfl <;> constructor <;> linarith
-  have hpq := (by linear_combination (r * r) * hu :
-    ((@capDir K (fieldNum K sq) dir).x * r) * ((@capDir K (fieldNum K sq) dir).x * r) +
-    ((@capDir K (fieldNum K sq) dir).y * r) * ((@capDir K (fieldNum K sq) dir).y * r) = r * r)
-  unfold cylinderFeature
-  simp only [copysign_field, abs_of_nonneg hh0]
-  by_cases c1 : @nabs K (fieldNum K sq) dir.y < @lit K (fieldNum K sq) 1 2
-  · simp only [c1, if_true]
-    refine ⟨by first | exact Or.inl rfl | exact Or.inl trivial, ?_⟩
-    intro v hv
-    simp only [List.mem_cons, List.not_mem_nil, or_false] at hv
-    rcases hv with h | h <;> rw [h]
-    · exact hmem _ (Or.inr rfl) _ _ hpq
-    · exact hmem _ (Or.inl rfl) _ _ hpq
-  · by_cases c2 : dir.y < 0
-    · simp only [c1, c2, if_false, if_true]
-      refine ⟨Or.inr (by simp only [neg_mul]), ?_⟩
-      intro v hv
-      simp only [List.mem_cons, List.not_mem_nil, or_false] at hv
-      rcases hv with h | h | h | h <;> rw [h] <;> apply hmem _ (Or.inr rfl) <;> linear_combination hpq
-    · simp only [c1, c2, if_false]
-      refine ⟨Or.inr (by simp only [neg_mul]), ?_⟩
-      intro v hv
-      simp only [List.mem_cons, List.not_mem_nil, or_false] at hv
-      rcases hv with h | h | h | h <;> rw [h] <;> apply hmem _ (Or.inl rfl) <;> linear_combination hpq
-
-/-- **C10 (cone `local_support_feature`)**: for `half_height > 0` and every direction the returned feature is,
-for some `(p,q)` with `p²+q² = r²`, either the generator `(p,-hh,q)–apex` (when `dir.y > 0`) or the square
-`(p,-hh,q),(-q,-hh,p),(-p,-hh,-q),(q,-hh,-p)` inscribed in the base circle; every vertex is a point of the cone. -/
-theorem cone_feature_vertices (hs : LawfulSqrt sq) (hh r : K) (dir : V3 K) (hh0 : 0 < hh) :
-    letI := fieldNum K sq
-    ∃ p q : K, p * p + q * q = r * r ∧
-      ((coneFeature hh r dir).verts = [⟨p, -hh, q⟩, ⟨0, hh, 0⟩] ∨
-       (coneFeature hh r dir).verts = [⟨p, -hh, q⟩, ⟨-q, -hh, p⟩, ⟨-p, -hh, -q⟩, ⟨q, -hh, -p⟩]) ∧
-      ∀ v ∈ (coneFeature hh r dir).verts, (Cone.mk hh r).Mem v := by
-  have hu := capDir_unit sq hs dir
-  have hpq := (by linear_combination (r * r) * hu :
-    ((@capDir K (fieldNum K sq) dir).x * r) * ((@capDir K (fieldNum K sq) dir).x * r) +
-    ((@capDir K (fieldNum K sq) dir).y * r) * ((@capDir K (fieldNum K sq) dir).y * r) = r * r)
-  refine ⟨(@capDir K (fieldNum K sq) dir).x * r, (@capDir K (fieldNum K sq) dir).y * r, hpq, ?_⟩
-  have hrim : ∀ p q : K, p * p + q * q = r * r → @Cone.Mem K (fieldNum K sq) (Cone.mk hh r) ⟨p, -hh, q⟩ := by
-    intro p q h
-    simp only [Cone.Mem, fieldNum_two]
-    refine ⟨⟨le_refl _, by linarith⟩, ?_⟩
-    rw [h]; apply le_of_eq; ring
-  have hapex : @Cone.Mem K (fieldNum K sq) (Cone.mk hh r) ⟨0, hh, 0⟩ := by
-    simp only [Cone.Mem, fieldNum_two]
-    refine ⟨⟨by linarith, le_refl _⟩, ?_⟩
-    apply le_of_eq; ring
-  unfold coneFeature
-  by_cases c : 0 < dir.y
-  · simp only [c, if_true]
-    refine ⟨by first | exact Or.inl rfl | exact Or.inl trivial, ?_⟩
-    intro v hv
-    simp only [List.mem_cons, List.not_mem_nil, or_false] at hv
-    rcases hv with h | h <;> rw [h]
-    · exact hrim _ _ hpq
-    · exact hapex
-  · simp only [c, if_false]
-    refine ⟨Or.inr (by simp only [neg_mul]), ?_⟩
-    intro v hv
-    simp only [List.mem_cons, List.not_mem_nil, or_false] at hv
-    rcases hv with h | h | h | h <;> rw [h] <;> apply hrim <;> linear_combination hpq
-
-/-! ### convex polygon `local_support_feature` -/
-
-/-- the outward unit normals of the edges `pts[i] → pts[i+1 mod n]` that `ccw_face_normal` accepts -/
-def polygonNormals (pts : List (V2 K)) : List (V2 K) :=
-  letI := fieldNum K sq
-  ((List.range pts.length).map fun i =>
-    ccwFaceNormal2 (pts.getD i V2.zero) (pts.getD ((i + 1) % pts.length) V2.zero)).filterMap id
-
-/-- **C10 (`ConvexPolygon::local_support_feature`)**: whenever the feature is produced (polygon accepted by the
-constructor), it is the edge `pts[i] → pts[i+1 mod n]` for an index `i < n`: both vertices are vertices of the
-polygon, the ids name that edge (`2i`, `2(i+1 mod n)`, face `2i+1`), and `i` is the *first* index whose edge normal
-maximises `normal·dir` over all edge normals (the supporting face for `dir`). -/
-theorem polygon_feature_spec (pts : List (V2 K)) (dir : V2 K) (f : Feature2 K) :
-    letI := fieldNum K sq
-    polygonFeature pts dir = some f →
-    ∃ i N, i < pts.length ∧ (polygonNormals sq pts)[i]? = some N ∧
-      f.verts = [pts.getD i V2.zero, pts.getD ((i + 1) % pts.length) V2.zero] ∧
-      (∀ v ∈ f.verts, v ∈ pts) ∧
-      f.vids = [i * 2, ((i + 1) % pts.length) * 2] ∧ f.fid = i * 2 + 1 ∧
-      (∀ M ∈ polygonNormals sq pts, M.dot dir ≤ N.dot dir) ∧
-      (∀ j M, j < i → (polygonNormals sq pts)[j]? = some M → M.dot dir < N.dot dir) := by
-  intro h
-  unfold polygonFeature at h
-  simp only [] at h
-  split_ifs at h with c1 c2
-  have hlen : (polygonNormals sq pts).length ≤ pts.length := by
-    unfold polygonNormals
-    exact (List.length_filterMap_le _ _).trans (by simp)
-  have hn0 : 0 < pts.length := by omega
-  revert h
-  change (match polygonNormals sq pts with
-    | [] => none
-    | n0 :: ns => some _) = some f → _
-  cases hN : polygonNormals sq pts with
-  | nil => intro h; simp at h
-  | cons n0 ns =>
-    intro h
-    simp only [Option.some.injEq] at h
-    have hall : ∀ q ∈ [n0], @V2.dot K (fieldNum K sq) q dir ≤ @V2.dot K (fieldNum K sq) n0 dir := by
-      intro q hq
-      have : q = n0 := by simpa using hq
-      subst this; exact le_refl _
-    obtain ⟨pr, h1, h2, h3⟩ := cloudGo2_spec sq dir ns [n0] 0 (@V2.dot K (fieldNum K sq) n0 dir)
-      ⟨n0, rfl, rfl⟩ hall (by intro j hj; omega)
-    simp only [List.length_cons, List.length_nil, Nat.zero_add, List.singleton_append] at h1 h2 h3
-    have hi : @cloudGo2 K (fieldNum K sq) dir ns 1 0 (@V2.dot K (fieldNum K sq) n0 dir) < pts.length := by
-      have := (List.getElem?_eq_some_iff.1 h1).1
-      rw [hN] at hlen
-      omega
-    have hi2 : (@cloudGo2 K (fieldNum K sq) dir ns 1 0 (@V2.dot K (fieldNum K sq) n0 dir) + 1) % pts.length < pts.length :=
-      Nat.mod_lt _ hn0
-    refine ⟨_, pr, hi, h1, ?_, ?_, ?_, ?_, h2, fun j M hj hM => h3 j hj M hM⟩
-    · rw [← h]
-    · rw [← h]
-      intro v hv
-      simp only [List.mem_cons, List.not_mem_nil, or_false] at hv
-      rcases hv with hv | hv <;> rw [hv]
-      · simp only [List.getD_eq_getElem?_getD, List.getElem?_eq_getElem hi, Option.getD_some]; exact List.getElem_mem _
-      · simp only [List.getD_eq_getElem?_getD, List.getElem?_eq_getElem hi2, Option.getD_some]; exact List.getElem_mem _
-    · rw [← h]
-    · rw [← h]
-
-/-! ### `Triangle::support_face` (2-D) -/
-
-/-- unit normal `(t.y, -t.x)/|t|` of the triangle edge with tangent `t` (`none` for a degenerate edge), as
-computed by `Unit::try_new(normal, 0.0)` -/
-def edgeNormal2 (t : V2 K) : Option (V2 K) :=
-  letI := fieldNum K sq
-  tryNew2 ⟨t.y, -t.x⟩ 0
-
-private theorem triFaceStep_spec (dir : V2 K) (st : Nat × K) (k : Nat) (t : V2 K) :
-    letI := fieldNum K sq
-    st.2 ≤ (triFaceStep dir st k t).2 ∧
-    (∀ N, edgeNormal2 sq t = some N → N.dot dir ≤ (triFaceStep dir st k t).2) ∧
-    (triFaceStep dir st k t = st ∨
-      ((triFaceStep dir st k t).1 = k ∧ ∃ N, edgeNormal2 sq t = some N ∧ N.dot dir = (triFaceStep dir st k t).2)) := by
-  unfold triFaceStep edgeNormal2
-  cases h : @tryNew2 K (fieldNum K sq) ⟨t.y, -t.x⟩ 0 with
-  | none => simp
-  | some nrm =>
-    simp only []
-    split_ifs with c
-    · refine ⟨c.le, ?_, Or.inr ⟨rfl, nrm, rfl, rfl⟩⟩
-      intro N hN; simp only [Option.some.injEq] at hN; rw [← hN]
-    · refine ⟨le_refl _, ?_, Or.inl rfl⟩
-      intro N hN; simp only [Option.some.injEq] at hN; rw [← hN]; exact not_lt.1 c
-
-/-- **C10 (`Triangle::support_face`, 2-D)**: the returned feature is an edge `i → i+1 mod 3` of the triangle
-(`i < 3`; both vertices are triangle vertices, hence points of the triangle; ids `i`, `i+1 mod 3`, face `i`), and
-its unit normal maximises `normal·dir` over the non-degenerate edges: there is `best` with `N_k·dir ≤ best` for
-every edge `k` with a defined normal, and either no normal exceeds the initial `-MAX` (then `i = 0`, `best =
--MAX`) or the chosen edge `i` has a defined normal with `N_i·dir = best`. -/
-theorem triangle2_face_spec (negMax : K) (a b c dir : V2 K) :
-    letI := fieldNum K sq
-    ∃ i best, i < 3 ∧
-      (triangleSupportFace2 negMax a b c dir).verts = [[a, b, c].getD i a, [a, b, c].getD ((i + 1) % 3) a] ∧
-      (triangleSupportFace2 negMax a b c dir).vids = [i, (i + 1) % 3] ∧
-      (triangleSupportFace2 negMax a b c dir).fid = i ∧
-      (∀ v ∈ (triangleSupportFace2 negMax a b c dir).verts, (Triangle2.mk a b c).Mem v) ∧
-      (∀ t ∈ [b.sub a, c.sub b, a.sub c], ∀ N, edgeNormal2 sq t = some N → N.dot dir ≤ best) ∧
-      ((best = negMax ∧ i = 0) ∨
-        ∃ N, edgeNormal2 sq ([b.sub a, c.sub b, a.sub c].getD i (b.sub a)) = some N ∧ N.dot dir = best) := by
-  obtain ⟨ma, mb, mc⟩ := tri2_mem sq a b c
-  obtain ⟨m1, n1, o1⟩ := triFaceStep_spec sq dir (0, negMax) 0 (@V2.sub K (fieldNum K sq) b a)
-  obtain ⟨m2, n2, o2⟩ := triFaceStep_spec sq dir
-    (@triFaceStep K (fieldNum K sq) dir (0, negMax) 0 (@V2.sub K (fieldNum K sq) b a)) 1 (@V2.sub K (fieldNum K sq) c b)
-  obtain ⟨m3, n3, o3⟩ := triFaceStep_spec sq dir
-    (@triFaceStep K (fieldNum K sq) dir (@triFaceStep K (fieldNum K sq) dir (0, negMax) 0 (@V2.sub K (fieldNum K sq) b a)) 1
-      (@V2.sub K (fieldNum K sq) c b)) 2 (@V2.sub K (fieldNum K sq) a c)
-  unfold triangleSupportFace2
-  simp only []
-  generalize @triFaceStep K (fieldNum K sq) dir (0, negMax) 0 (@V2.sub K (fieldNum K sq) b a) = s1 at *
-  generalize @triFaceStep K (fieldNum K sq) dir s1 1 (@V2.sub K (fieldNum K sq) c b) = s2 at *
-  generalize @triFaceStep K (fieldNum K sq) dir s2 2 (@V2.sub K (fieldNum K sq) a c) = s3 at *
-  -- where the final index comes from
-  have hidx : (s3.1 = 0 ∧ ((s3.2 = negMax ∧ s3 = (0, negMax)) ∨ ∃ N, edgeNormal2 sq (@V2.sub K (fieldNum K sq) b a) = some N ∧
-        @V2.dot K (fieldNum K sq) N dir = s3.2)) ∨
-      (s3.1 = 1 ∧ ∃ N, edgeNormal2 sq (@V2.sub K (fieldNum K sq) c b) = some N ∧ @V2.dot K (fieldNum K sq) N dir = s3.2) ∨
-      (s3.1 = 2 ∧ ∃ N, edgeNormal2 sq (@V2.sub K (fieldNum K sq) a c) = some N ∧ @V2.dot K (fieldNum K sq) N dir = s3.2) := by
-    rcases o3 with e3 | ⟨i3, h3⟩
-    · rcases o2 with e2 | ⟨i2, h2⟩
-      · rcases o1 with e1 | ⟨i1, h1⟩
-        · left; rw [e3, e2, e1]; exact ⟨rfl, Or.inl ⟨rfl, rfl⟩⟩
-        · left; rw [e3, e2]; exact ⟨i1, Or.inr h1⟩
-      · right; left; rw [e3]; exact ⟨i2, h2⟩
-    · right; right; exact ⟨i3, h3⟩
-  have hbound : ∀ t ∈ [@V2.sub K (fieldNum K sq) b a, @V2.sub K (fieldNum K sq) c b, @V2.sub K (fieldNum K sq) a c],
-      ∀ N, edgeNormal2 sq t = some N → @V2.dot K (fieldNum K sq) N dir ≤ s3.2 := by
-    intro t ht N hN
-    simp only [List.mem_cons, List.not_mem_nil, or_false] at ht
-    rcases ht with rfl | rfl | rfl
-    · exact (n1 N hN).trans (m2.trans m3)
-    · exact (n2 N hN).trans m3
-    · exact n3 N hN
-  rcases hidx with ⟨hi, hh⟩ | ⟨hi, hh⟩ | ⟨hi, hh⟩
-  · refine ⟨0, s3.2, by norm_num, by rw [hi], by rw [hi], by rw [hi], ?_, hbound, ?_⟩
-    · rw [hi]; intro v hv
-      simp only [List.getD_cons_zero, Nat.zero_add, Nat.one_mod, List.getD_cons_succ, List.mem_cons, List.not_mem_nil, or_false] at hv
-      rcases hv with h | h <;> rw [h] <;> assumption
-    · rcases hh with ⟨h1, -⟩ | h
-      · exact Or.inl ⟨h1, rfl⟩
-      · exact Or.inr h
-  · refine ⟨1, s3.2, by norm_num, by rw [hi], by rw [hi], by rw [hi], ?_, hbound, Or.inr hh⟩
-    rw [hi]; intro v hv
-    simp only [List.getD_cons_zero, List.getD_cons_succ, List.mem_cons, List.not_mem_nil, or_false] at hv
-    rcases hv with h | h <;> rw [h] <;> assumption
-  · refine ⟨2, s3.2, by norm_num, by rw [hi], by rw [hi], by rw [hi], ?_, hbound, Or.inr hh⟩
-    rw [hi]; intro v hv
-    simp only [List.getD_cons_zero, List.getD_cons_succ, List.mem_cons, List.not_mem_nil, or_false] at hv
-    rcases hv with h | h <;> rw [h] <;> assumption
-
-private theorem iamin3_spec (v : V3 K) :
-    letI := fieldNum K sq
-    iamin3 v < 3 ∧ |v.get (iamin3 v)| ≤ |v.x| ∧ |v.get (iamin3 v)| ≤ |v.y| ∧ |v.get (iamin3 v)| ≤ |v.z| := by
-  simp only [iamin3, fieldNum_nabs, V3.get]
-  split_ifs <;> simp_all <;> (try constructor) <;> linarith
-
-/-- **C10 (`Cuboid::local_support_edge_segment`, 3-D)**: with `i = iamin(dir)` (the axis along which `dir` is
-weakest: `|dir_i| ≤ |dir_j|` for all `j`), both end points of the returned edge are points of the cuboid and the
-support point `Cuboid::local_support_point(dir)` is one of them — the edge is a supporting edge for `dir`. -/
-theorem cuboid_edge_support3 (he dir : V3 K) (hx : 0 ≤ he.x) (hy : 0 ≤ he.y) (hz : 0 ≤ he.z) :
-    letI := fieldNum K sq
-    (|dir.get (iamin3 dir)| ≤ |dir.x| ∧ |dir.get (iamin3 dir)| ≤ |dir.y| ∧ |dir.get (iamin3 dir)| ≤ |dir.z|) ∧
-    (Cuboid3.mk he).Mem (cuboidSupportEdge3 he dir).1 ∧ (Cuboid3.mk he).Mem (cuboidSupportEdge3 he dir).2 ∧
-    (cuboidLocal3 he dir = (cuboidSupportEdge3 he dir).1 ∨ cuboidLocal3 he dir = (cuboidSupportEdge3 he dir).2) := by
-  obtain ⟨hi, h1, h2, h3⟩ := iamin3_spec sq dir
-  refine ⟨⟨h1, h2, h3⟩, ?_⟩
-  unfold cuboidSupportEdge3 cuboidLocal3
-  simp only [copysign_field]
-  generalize @iamin3 K (fieldNum K sq) dir = i at hi ⊢
-  have hc : i = 0 ∨ i = 1 ∨ i = 2 := by omega
-  rcases hc with rfl | rfl | rfl
-  · simp only [V3.get, V3.set, V3.zero, Nat.reduceAdd, Nat.reduceMod, one_ne_zero, OfNat.ofNat_ne_zero, OfNat.ofNat_ne_one,
-      if_true, if_false, Cuboid3.Mem, abs_of_nonneg hx, abs_of_nonneg hy, abs_of_nonneg hz, zero_add]
-    refine ⟨?_, ?_, ?_⟩
-    · split_ifs <;> refine ⟨⟨?_, ?_⟩, ⟨?_, ?_⟩, ⟨?_, ?_⟩⟩ <;> linarith
-    · split_ifs <;> refine ⟨⟨?_, ?_⟩, ⟨?_, ?_⟩, ⟨?_, ?_⟩⟩ <;> linarith
-    · split_ifs <;> simp
-  · simp only [V3.get, V3.set, V3.zero, Nat.reduceAdd, Nat.reduceMod, one_ne_zero, OfNat.ofNat_ne_zero, OfNat.ofNat_ne_one,
-      if_true, if_false, Cuboid3.Mem, abs_of_nonneg hx, abs_of_nonneg hy, abs_of_nonneg hz, zero_add]
-    refine ⟨?_, ?_, ?_⟩
-    · split_ifs <;> refine ⟨⟨?_, ?_⟩, ⟨?_, ?_⟩, ⟨?_, ?_⟩⟩ <;> linarith
-    · split_ifs <;> refine ⟨⟨?_, ?_⟩, ⟨?_, ?_⟩, ⟨?_, ?_⟩⟩ <;> linarith
-    · split_ifs <;> simp
-  · simp only [V3.get, V3.set, V3.zero, Nat.reduceAdd, Nat.reduceMod, one_ne_zero, OfNat.ofNat_ne_zero, OfNat.ofNat_ne_one,
-      if_true, if_false, Cuboid3.Mem, abs_of_nonneg hx, abs_of_nonneg hy, abs_of_nonneg hz, zero_add]
-    refine ⟨?_, ?_, ?_⟩
-    · split_ifs <;> refine ⟨⟨?_, ?_⟩, ⟨?_, ?_⟩, ⟨?_, ?_⟩⟩ <;> linarith
-    · split_ifs <;> refine ⟨⟨?_, ?_⟩, ⟨?_, ?_⟩, ⟨?_, ?_⟩⟩ <;> linarith
-    · split_ifs <;> simp
-
-/-! ## worked instances of the generic theorems (also their non-vacuity) -/
-
-/-- **C10 (posed cuboid)**: `Cuboid::support_point(m, dir)` is a point of the posed cuboid `m·C` and maximises
-`dir·p` over it, for every pose and every direction (instance of `posed_support3` + `cuboid_support3`). -/
-theorem posed_cuboid_support3 (he : V3 K) (m : Iso3 K) (dir : V3 K) (hx : 0 ≤ he.x) (hy : 0 ≤ he.y) (hz : 0 ≤ he.z) :
-    letI := fieldNum K sq
-    IsSupport3 sq (fun p => ∃ q, (Cuboid3.mk he).Mem q ∧ p = m.act q) dir (supportPoint3 (cuboidLocal3 he) m dir) :=
-  (posed_support3 sq _ _ m dir).2 (cuboid_support3 sq he _ hx hy hz)
-
-/-- **C10 (posed ball)**: the overriding `Ball::support_point(m, dir) = translation + dir/|dir|·r` is a point of
-the posed ball and maximises `dir·p` over it, for every unit rotation and non-zero direction
-(`ball_posed_eq_default3` + `posed_support3` + `ball_support3`). -/
-theorem posed_ball_support3 (hs : LawfulSqrt sq) (r : K) (m : Iso3 K) (dir : V3 K) (hr : 0 ≤ r)
-    (hq : m.qi * m.qi + m.qj * m.qj + m.qk * m.qk + m.qw * m.qw = 1)
-    (hd : dir.x ≠ 0 ∨ dir.y ≠ 0 ∨ dir.z ≠ 0) :
-    letI := fieldNum K sq
-    IsSupport3 sq (fun p => ∃ q, (Ball.mk r).Mem3 q ∧ p = m.act q) dir (ballPosed3 r m dir) := by
-  rw [ball_posed_eq_default3 sq r m dir hq]
-  refine (posed_support3 sq _ _ m dir).2 (ball_support3 sq hs r _ hr ?_)
-  -- `mᵀ dir ≠ 0` because `|mᵀ dir|² = |dir|² > 0`
-  have h1 := normSq_invRot3 sq m dir hq
-  have hpos := sumsq3_pos hd
-  by_contra hc
-  push Not at hc
-  obtain ⟨h0x, h0y, h0z⟩ := hc
-  simp only [V3.normSq, V3.dot] at h1
-  rw [h0x, h0y, h0z] at h1
-  nlinarith
-
-example : ((3/5 : ℝ) * (3/5) + 0 * 0 + (4/5) * (4/5) + 0 * 0 = 1) ∧ (0:ℝ) ≤ 2 := by norm_num
-
-/-- **C10 (`ConstantPoint`, `ConstantOrigin`)**: the constant support maps return the unique point of the
-singleton they stand for (trivially maximal), locally and posed. -/
-theorem constant_support (p : V3 K) (m : Iso3 K) (dir : V3 K) :
-    letI := fieldNum K sq
-    IsSupport3 sq (fun q => q = p) dir (constantPointLocal p dir) ∧
-    IsSupport3 sq (fun q => ∃ q0, q0 = p ∧ q = m.act q0) dir (constantPointPosed p m dir) ∧
-    IsSupport3 sq (fun q => q = ⟨0, 0, 0⟩) dir (constantOriginLocal dir) ∧
-    constantOriginPosed m dir = m.act (constantOriginLocal (m.invRot dir)) := by
-  refine ⟨⟨rfl, ?_⟩, ⟨⟨p, rfl, rfl⟩, ?_⟩, ⟨rfl, ?_⟩, ?_⟩
-  · rintro q rfl; exact le_refl _
-  · rintro q ⟨q0, rfl, rfl⟩; exact le_refl _
-  · rintro q rfl; exact le_refl _
-  · apply v3_ext <;>
-      simp [constantOriginPosed, constantOriginLocal, Iso3.act, Iso3.rot, Iso3.rotQ, Iso3.qv, V3.cross, V3.smul, V3.add]
-
-/-! ## non-vacuity of the remaining hypotheses (concrete inputs)
-`capsule_support*`: `r = 1/2 ≥ 0`, `dir = (0,-2,1) ≠ 0`;  `cuboid_face_vertices*`, `cuboid_edge_support3`,
-`cuboid_face_ids*`: `he = (1,2,3)`;  cylinder/cone features: `hh = 3/2`;  `round_support*`: its hypothesis is
-discharged by `round_cuboid_support3`, `round_cylinder_support`, `round_cone_support`, `round_triangle_support3`;
-`posed_support*`: by `posed_cuboid_support3`, `posed_ball_support3`;  `polygon_feature_spec`: its hypothesis
-`polygonFeature pts dir = some f` holds on every polygon of the correspondence run (the model prints the feature,
-not `panic`, on all generated `polygon_feature` cases). -/
-example : (0:ℝ) ≤ 1/2 ∧ ((⟨0, -2, 1⟩ : V3 ℝ).x ≠ 0 ∨ (⟨0, -2, 1⟩ : V3 ℝ).y ≠ 0 ∨ (⟨0, -2, 1⟩ : V3 ℝ).z ≠ 0) := by norm_num
-example : (0:ℚ) ≤ (⟨1, 2⟩ : V2 ℚ).x ∧ (0:ℚ) < (⟨1, 2⟩ : V2 ℚ).y ∧ (0:ℚ) < 3/2 := by norm_num
-
-/-! ## near-zero directions: the support point does not depend on the length of the direction
-
-The property quantifies over *all* non-zero directions, "near-zero ones" included.  In exact arithmetic every
-`local_support_point` is invariant under positive scaling of `dir`, so a tiny direction must give the same point
-as the ordinary one it is a multiple of; any norm threshold in the code (other than "exactly zero") breaks this. -/
-
-private theorem sqrt_unique (hs : LawfulSqrt sq) {x y : K} (hy : 0 ≤ y) (h : y * y = x) : sq x = y := by
-  have hx : 0 ≤ x := by rw [← h]; exact mul_self_nonneg y
-  have h1 := hs.nonneg x hx
-  have h2 := hs.sq_mul x hx
-  have h3 : sq x * sq x = y * y := by rw [h2, h]
-  rcases mul_self_eq_mul_self_iff.1 h3 with e | e
-  · exact e
-  · exact le_antisymm (by linarith) (by linarith)
-
-private theorem normalize3_scale (hs : LawfulSqrt sq) (dir : V3 K) (s : K) (hs0 : 0 < s)
-    (hd : dir.x ≠ 0 ∨ dir.y ≠ 0 ∨ dir.z ≠ 0) :
-    letI := fieldNum K sq
-    normalize3 (dir.smul s) = normalize3 dir := by
-  have hpos := sumsq3_pos hd
-  have hn := norm_pos_of hs hpos
-  have hnn := hs.sq_mul _ hpos.le
-  have hsq : sq (dir.x * s * (dir.x * s) + dir.y * s * (dir.y * s) + dir.z * s * (dir.z * s))
-      = s * sq (dir.x * dir.x + dir.y * dir.y + dir.z * dir.z) := by
-    apply sqrt_unique sq hs (mul_nonneg hs0.le hn.le)
-    linear_combination (s * s) * hnn
-  have hne := ne_of_gt hn
-  have hse := ne_of_gt hs0
-  simp only [normalize3, V3.norm, V3.normSq, V3.dot, V3.smul, V3.sdiv, fieldNum_sqrt]
-  rw [hsq]
-  apply v3_ext <;> simp only [] <;> field_simp
-
-private theorem normalize2_scale (hs : LawfulSqrt sq) (dir : V2 K) (s : K) (hs0 : 0 < s)
-    (hd : dir.x ≠ 0 ∨ dir.y ≠ 0) :
-    letI := fieldNum K sq
-    normalize2 (dir.smul s) = normalize2 dir := by
-  have hpos := sumsq2_pos hd
-  have hn := norm_pos_of hs hpos
-  have hnn := hs.sq_mul _ hpos.le
-  have hsq : sq (dir.x * s * (dir.x * s) + dir.y * s * (dir.y * s))
-      = s * sq (dir.x * dir.x + dir.y * dir.y) := by
-    apply sqrt_unique sq hs (mul_nonneg hs0.le hn.le)
-    linear_combination (s * s) * hnn
-  have hne := ne_of_gt hn
-  have hse := ne_of_gt hs0
-  simp only [normalize2, V2.norm, V2.normSq, V2.dot, V2.smul, V2.sdiv, fieldNum_sqrt]
-  rw [hsq]
-  apply v2_ext <;> simp only [] <;> field_simp
-
-/-- on a non-zero direction `Capsule::local_support_point` is `_toward` of the normalised direction
-(`Unit::try_new(dir, 0.0)` succeeds: the threshold is *zero*, not an epsilon) -/
-private theorem capsuleLocal3_eq (a b : V3 K) (r : K) (dir : V3 K) (hd : dir.x ≠ 0 ∨ dir.y ≠ 0 ∨ dir.z ≠ 0) :
-    letI := fieldNum K sq
-    capsuleLocal3 a b r dir = capsuleToward3 a b r (normalize3 dir) := by
-  have hpos := sumsq3_pos hd
-  have htn : @tryNew3 K (fieldNum K sq) dir 0 = some (@normalize3 K (fieldNum K sq) dir) := by
-    simp only [tryNew3]
-    split_ifs with h
-    · rfl
-    · exact absurd (by simpa [V3.normSq, V3.dot] using hpos) h
-  unfold capsuleLocal3; rw [htn]; rfl
-private theorem capsuleLocal2_eq (a b : V2 K) (r : K) (dir : V2 K) (hd : dir.x ≠ 0 ∨ dir.y ≠ 0) :
-    letI := fieldNum K sq
-    capsuleLocal2 a b r dir = capsuleToward2 a b r (normalize2 dir) := by
-  have hpos := sumsq2_pos hd
-  have htn : @tryNew2 K (fieldNum K sq) dir 0 = some (@normalize2 K (fieldNum K sq) dir) := by
-    simp only [tryNew2]
-    split_ifs with h
-    · rfl
-    · exact absurd (by simpa [V2.normSq, V2.dot] using hpos) h
-  unfold capsuleLocal2; rw [htn]; rfl
-
-private theorem smul_ne3 (dir : V3 K) (s : K) (hs0 : 0 < s) (hd : dir.x ≠ 0 ∨ dir.y ≠ 0 ∨ dir.z ≠ 0) :
-    letI := fieldNum K sq
-    (dir.smul s).x ≠ 0 ∨ (dir.smul s).y ≠ 0 ∨ (dir.smul s).z ≠ 0 := by
-  simp only [V3.smul]
-  rcases hd with h | h | h
-  · exact Or.inl (mul_ne_zero h (ne_of_gt hs0))
-  · exact Or.inr (Or.inl (mul_ne_zero h (ne_of_gt hs0)))
-  · exact Or.inr (Or.inr (mul_ne_zero h (ne_of_gt hs0)))
-private theorem smul_ne2 (dir : V2 K) (s : K) (hs0 : 0 < s) (hd : dir.x ≠ 0 ∨ dir.y ≠ 0) :
-    letI := fieldNum K sq
-    (dir.smul s).x ≠ 0 ∨ (dir.smul s).y ≠ 0 := by
-  simp only [V2.smul]
-  rcases hd with h | h
-  · exact Or.inl (mul_ne_zero h (ne_of_gt hs0))
-  · exact Or.inr (mul_ne_zero h (ne_of_gt hs0))
-
-/-- **C10 (near-zero directions; ball, capsule, RoundShape/DilatedShape — the normalise-then-scale shapes)**:
-for every non-zero direction and every scale `s > 0`, however small, `local_support_point(s·dir) =
-local_support_point(dir)` (3-D and 2-D).  In particular the capsule's `Unit::try_new(dir, 0.0)` may only fall back
-to `+Y` for the *zero* vector. -/
-theorem scale_invariant_normalising (hs : LawfulSqrt sq) (s : K) (hs0 : 0 < s)
-    (dir : V3 K) (hd : dir.x ≠ 0 ∨ dir.y ≠ 0 ∨ dir.z ≠ 0) (dir2 : V2 K) (hd2 : dir2.x ≠ 0 ∨ dir2.y ≠ 0)
-    (r : K) (a b : V3 K) (a2 b2 : V2 K) (inner : V3 K → V3 K) (inner2 : V2 K → V2 K) :
-    letI := fieldNum K sq
-    ballLocal3 r (dir.smul s) = ballLocal3 r dir ∧
-    capsuleLocal3 a b r (dir.smul s) = capsuleLocal3 a b r dir ∧
-    roundLocal3 inner r (dir.smul s) = roundLocal3 inner r dir ∧
-    ballLocal2 r (dir2.smul s) = ballLocal2 r dir2 ∧
-    capsuleLocal2 a2 b2 r (dir2.smul s) = capsuleLocal2 a2 b2 r dir2 ∧
-    roundLocal2 inner2 r (dir2.smul s) = roundLocal2 inner2 r dir2 := by
-  have h3 := normalize3_scale sq hs dir s hs0 hd
-  have h2 := normalize2_scale sq hs dir2 s hs0 hd2
-  refine ⟨?_, ?_, ?_, ?_, ?_, ?_⟩
-  · unfold ballLocal3; rw [h3]
-  · rw [capsuleLocal3_eq sq a b r _ (smul_ne3 sq dir s hs0 hd), capsuleLocal3_eq sq a b r _ hd, h3]
-  · unfold roundLocal3; rw [h3]
-  · unfold ballLocal2; rw [h2]
-  · rw [capsuleLocal2_eq sq a2 b2 r _ (smul_ne2 sq dir2 s hs0 hd2), capsuleLocal2_eq sq a2 b2 r _ hd2, h2]
-  · unfold roundLocal2; rw [h2]
-
-example : (0:ℝ) < 1 / 2 ^ 1000 ∧ ((⟨1, -2, 0⟩ : V3 ℝ).x ≠ 0 ∨ (⟨1, -2, 0⟩ : V3 ℝ).y ≠ 0 ∨ (⟨1, -2, 0⟩ : V3 ℝ).z ≠ 0) := by
-  constructor
-  · positivity
-  · norm_num
-
-private theorem copysign_scale (h d s : K) (hs0 : 0 < s) :
-    letI := fieldNum K sq
-    copysign h (d * s) = copysign h d := by
-  rw [copysign_field, copysign_field]
-  have : d * s < 0 ↔ d < 0 := by
-    constructor
-    · intro h1; by_contra h2; push Not at h2; nlinarith [mul_nonneg h2 hs0.le]
-    · intro h1; nlinarith
-  simp only [this]
-
-private theorem dot_smul3 (v d : V3 K) (s : K) : letI := fieldNum K sq; v.dot (d.smul s) = v.dot d * s := by
-  simp only [V3.dot, V3.smul]; ring
-private theorem dot_smul2 (v d : V2 K) (s : K) : letI := fieldNum K sq; v.dot (d.smul s) = v.dot d * s := by
-  simp only [V2.dot, V2.smul]; ring
-
-private theorem cloudGo3_scale (d : V3 K) (s : K) (hs0 : 0 < s) :
-    letI := fieldNum K sq
-    ∀ (ps : List (V3 K)) (i best : Nat) (bd : K),
-      cloudGo3 (d.smul s) ps i best (bd * s) = cloudGo3 d ps i best bd := by
-  intro ps
-  induction ps with
-  | nil => intro i best bd; rfl
-  | cons p ps ih =>
-    intro i best bd
-    unfold cloudGo3
-    simp only [dot_smul3, mul_lt_mul_iff_left₀ hs0]
-    split_ifs
-    · exact ih _ _ _
-    · exact ih _ _ _
-private theorem cloudGo2_scale (d : V2 K) (s : K) (hs0 : 0 < s) :
-    letI := fieldNum K sq
-    ∀ (ps : List (V2 K)) (i best : Nat) (bd : K),
-      cloudGo2 (d.smul s) ps i best (bd * s) = cloudGo2 d ps i best bd := by
-  intro ps
-  induction ps with
-  | nil => intro i best bd; rfl
-  | cons p ps ih =>
-    intro i best bd
-    unfold cloudGo2
-    simp only [dot_smul2, mul_lt_mul_iff_left₀ hs0]
-    split_ifs
-    · exact ih _ _ _
-    · exact ih _ _ _
-
-/-- **C10 (near-zero directions; cuboid, segment, triangle, point clouds / convex polyhedra / polygons)**: for
-*every* direction and every scale `s > 0`, `local_support_point(s·dir) = local_support_point(dir)` and
-`point_cloud_support_point_id(s·dir) = point_cloud_support_point_id(dir)` — these shapes only compare signs and
-dot products, which scale. -/
-theorem scale_invariant_polytopes (s : K) (hs0 : 0 < s) (dir : V3 K) (dir2 : V2 K)
-    (he a b c : V3 K) (he2 a2 b2 c2 : V2 K) (pts : List (V3 K)) (pts2 : List (V2 K)) :
-    letI := fieldNum K sq
-    cuboidLocal3 he (dir.smul s) = cuboidLocal3 he dir ∧
-    segmentLocal3 a b (dir.smul s) = segmentLocal3 a b dir ∧
-    triangleLocal3 a b c (dir.smul s) = triangleLocal3 a b c dir ∧
-    cloudId3 (dir.smul s) pts = cloudId3 dir pts ∧ cloudPoint3 (dir.smul s) pts = cloudPoint3 dir pts ∧
-    cuboidLocal2 he2 (dir2.smul s) = cuboidLocal2 he2 dir2 ∧
-    segmentLocal2 a2 b2 (dir2.smul s) = segmentLocal2 a2 b2 dir2 ∧
-    triangleLocal2 a2 b2 c2 (dir2.smul s) = triangleLocal2 a2 b2 c2 dir2 ∧
-    cloudId2 (dir2.smul s) pts2 = cloudId2 dir2 pts2 ∧ cloudPoint2 (dir2.smul s) pts2 = cloudPoint2 dir2 pts2 := by
-  have hid3 : @cloudId3 K (fieldNum K sq) (@V3.smul K (fieldNum K sq) dir s) pts = @cloudId3 K (fieldNum K sq) dir pts := by
-    cases pts with
-    | nil => rfl
-    | cons p ps => simp only [cloudId3, dot_smul3, cloudGo3_scale sq dir s hs0]
-  have hid2 : @cloudId2 K (fieldNum K sq) (@V2.smul K (fieldNum K sq) dir2 s) pts2 = @cloudId2 K (fieldNum K sq) dir2 pts2 := by
-    cases pts2 with
-    | nil => rfl
-    | cons p ps => simp only [cloudId2, dot_smul2, cloudGo2_scale sq dir2 s hs0]
-  refine ⟨?_, ?_, ?_, hid3, ?_, ?_, ?_, ?_, hid2, ?_⟩
-  · simp only [cuboidLocal3, V3.smul, copysign_scale sq _ _ s hs0]
-  · simp only [segmentLocal3, dot_smul3, mul_lt_mul_iff_left₀ hs0]
-  · simp only [triangleLocal3, dot_smul3, mul_lt_mul_iff_left₀ hs0]
-  · simp only [cloudPoint3, hid3]
-  · simp only [cuboidLocal2, V2.smul, copysign_scale sq _ _ s hs0]
-  · simp only [segmentLocal2, dot_smul2, mul_lt_mul_iff_left₀ hs0]
-  · simp only [triangleLocal2, dot_smul2, mul_lt_mul_iff_left₀ hs0]
-  · simp only [cloudPoint2, hid2]
-
-private theorem cylinderLocal_form (hh r : K) (dir : V3 K) :
-    letI := fieldNum K sq
-    cylinderLocal hh r dir =
-      if sq (dir.x * dir.x + 0 * 0 + dir.z * dir.z) = 0 then ⟨0, copysign hh dir.y, 0⟩
-      else ⟨dir.x / sq (dir.x * dir.x + 0 * 0 + dir.z * dir.z) * r, copysign hh dir.y,
-            dir.z / sq (dir.x * dir.x + 0 * 0 + dir.z * dir.z) * r⟩ := by
-  have hnorm : @V3.norm K (fieldNum K sq) ⟨dir.x, 0, dir.z⟩ = sq (dir.x * dir.x + 0 * 0 + dir.z * dir.z) := rfl
-  rcases Bool.eq_false_or_eq_true (@neq K (fieldNum K sq) (@V3.norm K (fieldNum K sq) ⟨dir.x, 0, dir.z⟩) 0) with hb | hb
-  · rw [hnorm] at hb
-    have h0 := (neq_field sq _ _).1 hb
-    simp only [cylinderLocal, hnorm, hb, if_true, V3.zero]
-    rw [if_pos h0]
-  · rw [hnorm] at hb
-    have h0 : sq (dir.x * dir.x + 0 * 0 + dir.z * dir.z) ≠ 0 := by
-      intro h; rw [(neq_field sq _ _).2 h] at hb; exact Bool.noConfusion hb
-    simp only [cylinderLocal, hnorm, hb, Bool.false_eq_true, if_false, V3.sdiv, V3.smul]
-    rw [if_neg h0]
-
-private theorem coneLocal_form (hh r : K) (dir : V3 K) :
-    letI := fieldNum K sq
-    coneLocal hh r dir =
-      if sq (dir.x * dir.x + 0 * 0 + dir.z * dir.z) = 0 then ⟨0, copysign hh dir.y, 0⟩
-      else if dir.x * (dir.x / sq (dir.x * dir.x + 0 * 0 + dir.z * dir.z) * r) + dir.y * -hh
-              + dir.z * (dir.z / sq (dir.x * dir.x + 0 * 0 + dir.z * dir.z) * r) < dir.y * hh then ⟨0, hh, 0⟩
-      else ⟨dir.x / sq (dir.x * dir.x + 0 * 0 + dir.z * dir.z) * r, -hh,
-            dir.z / sq (dir.x * dir.x + 0 * 0 + dir.z * dir.z) * r⟩ := by
-  have hnorm : @V3.norm K (fieldNum K sq) ⟨dir.x, 0, dir.z⟩ = sq (dir.x * dir.x + 0 * 0 + dir.z * dir.z) := rfl
-  rcases Bool.eq_false_or_eq_true (@neq K (fieldNum K sq) (@V3.norm K (fieldNum K sq) ⟨dir.x, 0, dir.z⟩) 0) with hb | hb
-  · rw [hnorm] at hb
-    have h0 := (neq_field sq _ _).1 hb
-    simp only [coneLocal, hnorm, hb, if_true]
-    rw [if_pos h0]
-  · rw [hnorm] at hb
-    have h0 : sq (dir.x * dir.x + 0 * 0 + dir.z * dir.z) ≠ 0 := by
-      intro h; rw [(neq_field sq _ _).2 h] at hb; exact Bool.noConfusion hb
-    simp only [coneLocal, hnorm, hb, Bool.false_eq_true, if_false, V3.sdiv, V3.smul, V3.dot]
-    rw [if_neg h0]
-
-/-- **C10 (near-zero directions; cylinder, cone)**: for every direction and every scale `s > 0`,
-`local_support_point(s·dir) = local_support_point(dir)`: the only norm test in the code is "exactly zero". -/
-theorem scale_invariant_revolution (hs : LawfulSqrt sq) (s : K) (hs0 : 0 < s) (hh r : K) (dir : V3 K) :
-    letI := fieldNum K sq
-    cylinderLocal hh r (dir.smul s) = cylinderLocal hh r dir ∧ coneLocal hh r (dir.smul s) = coneLocal hh r dir := by
-  obtain ⟨hn0, hnn⟩ := xz_norm sq hs dir.x dir.z
-  have hse := ne_of_gt hs0
-  have hsq : sq (dir.x * s * (dir.x * s) + 0 * 0 + dir.z * s * (dir.z * s))
-      = s * sq (dir.x * dir.x + 0 * 0 + dir.z * dir.z) := by
-    apply sqrt_unique sq hs (mul_nonneg hs0.le hn0)
-    linear_combination (s * s) * hnn
-  have hzero : s * sq (dir.x * dir.x + 0 * 0 + dir.z * dir.z) = 0 ↔ sq (dir.x * dir.x + 0 * 0 + dir.z * dir.z) = 0 := by
-    constructor
-    · intro h; exact (mul_eq_zero.1 h).resolve_left hse
-    · intro h; rw [h, mul_zero]
-  rw [cylinderLocal_form, cylinderLocal_form, coneLocal_form, coneLocal_form]
-  simp only [V3.smul, hsq, hzero, copysign_scale sq _ _ s hs0]
-  by_cases h0 : sq (dir.x * dir.x + 0 * 0 + dir.z * dir.z) = 0
-  · simp only [h0, if_true, and_self]
-  · simp only [h0, if_false]
-    have e1 : dir.x * s / (s * sq (dir.x * dir.x + 0 * 0 + dir.z * dir.z)) * r
-        = dir.x / sq (dir.x * dir.x + 0 * 0 + dir.z * dir.z) * r := by field_simp
-    have e2 : dir.z * s / (s * sq (dir.x * dir.x + 0 * 0 + dir.z * dir.z)) * r
-        = dir.z / sq (dir.x * dir.x + 0 * 0 + dir.z * dir.z) * r := by field_simp
-    rw [e1, e2]
-    refine ⟨rfl, ?_⟩
-    have hc : (dir.x * s * (dir.x / sq (dir.x * dir.x + 0 * 0 + dir.z * dir.z) * r) + dir.y * s * -hh
-          + dir.z * s * (dir.z / sq (dir.x * dir.x + 0 * 0 + dir.z * dir.z) * r) < dir.y * s * hh) ↔
-        (dir.x * (dir.x / sq (dir.x * dir.x + 0 * 0 + dir.z * dir.z) * r) + dir.y * -hh
-          + dir.z * (dir.z / sq (dir.x * dir.x + 0 * 0 + dir.z * dir.z) * r) < dir.y * hh) := by
-      have ea : dir.x * s * (dir.x / sq (dir.x * dir.x + 0 * 0 + dir.z * dir.z) * r) + dir.y * s * -hh
-          + dir.z * s * (dir.z / sq (dir.x * dir.x + 0 * 0 + dir.z * dir.z) * r)
-          = (dir.x * (dir.x / sq (dir.x * dir.x + 0 * 0 + dir.z * dir.z) * r) + dir.y * -hh
-          + dir.z * (dir.z / sq (dir.x * dir.x + 0 * 0 + dir.z * dir.z) * r)) * s := by ring
-      have eb : dir.y * s * hh = dir.y * hh * s := by ring
-      rw [ea, eb]
-      exact mul_lt_mul_iff_left₀ hs0
-    simp only [hc]
-
-end C10
+import ParryModel.C10.Theorems1
+import ParryModel.C10.Theorems2
+/-! C10 property theorems: `Theorems1.lean` (support maps, cuboid/triangle/segment/cylinder/cone/polygon features) and
+`Theorems2.lean` (ConvexPolyhedron features and feature ids, CSO points, guards). -/
